@@ -267,3 +267,1533 @@ Proof.
   - apply Sorted_sorted_keys.
   - apply NoDup_sorted_keys.
 Qed.
+
+(** * Changes *)
+
+Lemma NoDup_omap_keys (g : Z -> option change) (ks : list Z) :
+  (forall k c, g k = Some c -> ckey c = k) -> NoDup ks -> NoDup (map ckey (omap g ks)).
+Proof.
+  intros Hg. induction ks as [|k ks IH]; intros Hnd; simpl; [constructor|].
+  inversion Hnd as [|? ? Hk Hnd']; subst.
+  destruct (g k) as [c|] eqn:Eg; simpl; [|auto].
+  constructor; [|auto]. rewrite (Hg _ _ Eg). intros Hin.
+  apply elem_of_list_fmap in Hin as (c' & Hc' & Hin).
+  apply elem_of_list_omap in Hin as (k' & Hk' & Hg'). rewrite (Hg _ _ Hg') in Hc'. subst. contradiction.
+Qed.
+
+Lemma NoDup_merge_diff_keys eq m m' : NoDup (map ckey (merge_diff eq m m')).
+Proof.
+  unfold merge_diff. apply NoDup_omap_keys; [|apply NoDup_sorted_keys].
+  intros k c. apply classify_key.
+Qed.
+
+Lemma NoDup_omap_sel (sel : change -> option (Z * Z)) (d : list change) :
+  (forall c p, sel c = Some p -> p.1 = ckey c) -> NoDup (map ckey d) -> NoDup (map fst (omap sel d)).
+Proof.
+  intros Hsel. induction d as [|c d IH]; intros Hnd; simpl; [constructor|].
+  inversion Hnd as [|? ? Hc Hnd']; subst.
+  destruct (sel c) as [p|] eqn:Es; simpl; [|auto].
+  constructor; [|auto]. rewrite (Hsel _ _ Es). intros Hin.
+  apply elem_of_list_fmap in Hin as (p' & Hp' & Hin).
+  apply elem_of_list_omap in Hin as (c' & Hc' & Hs'). rewrite (Hsel _ _ Hs') in Hp'.
+  apply Hc. rewrite Hp'. apply elem_of_list_fmap. eauto.
+Qed.
+
+Section changes.
+  Context (eq : eqfn).
+
+  Definition ch_added (c : change) (old : option Z) : option Z :=
+    match c with Added _ v => Some v | _ => old end.
+  Definition ch_removed (c : change) (old : option Z) : option Z :=
+    match c with Removed _ v => Some v | _ => old end.
+  Definition ch_updated (c : change) (old : option Z) : option Z :=
+    match c with Updated _ _ v => Some v | _ => old end.
+
+  Definition ch_step (next : change_set) (change : change) : change_set :=
+    match change with
+    | Added key new => ChangeSet (<[key := new]> (cs_added next)) (cs_removed next) (cs_updated next)
+    | Removed key old => ChangeSet (cs_added next) (<[key := old]> (cs_removed next)) (cs_updated next)
+    | Updated key _ new => ChangeSet (cs_added next) (cs_removed next) (<[key := new]> (cs_updated next))
+    end.
+
+  Lemma partial_alter_id {V} (m : gmap Z V) k : partial_alter (fun old => old) k m = m.
+  Proof.
+    apply map_eq. intros k'. destruct (decide (k' = k)) as [->|Hne].
+    - rewrite lookup_partial_alter. reflexivity.
+    - apply lookup_partial_alter_ne. congruence.
+  Qed.
+
+  Lemma ch_fold_components (cs : list change) (acc : change_set) :
+    let r := fold_left ch_step cs acc in
+    cs_added r = fold_left (fun o c => partial_alter (ch_added c) (ckey c) o) cs (cs_added acc) /\
+    cs_removed r = fold_left (fun o c => partial_alter (ch_removed c) (ckey c) o) cs (cs_removed acc) /\
+    cs_updated r = fold_left (fun o c => partial_alter (ch_updated c) (ckey c) o) cs (cs_updated acc).
+  Proof.
+    revert acc. induction cs as [|c cs IH]; intros acc; simpl; [auto|].
+    destruct (IH (ch_step acc c)) as (Ha & Hr & Hu). rewrite Ha, Hr, Hu.
+    destruct c as [k v|k v|k o v]; simpl; unfold ch_added, ch_removed, ch_updated;
+      rewrite ?partial_alter_id; auto.
+  Qed.
+
+  (** the value produced by one recompute, read at one key *)
+  Lemma changes_lookup c cur k :
+    let v := Changes.value (Changes.Stabilize eq c cur) in
+    let d := diff_at eq (Changes.last c) cur k in
+    cs_added v !! k = match d with Some (Added _ x) => Some x | _ => None end /\
+    cs_removed v !! k = match d with Some (Removed _ x) => Some x | _ => None end /\
+    cs_updated v !! k = match d with Some (Updated _ _ x) => Some x | _ => None end.
+  Proof.
+    unfold Changes.Stabilize; simpl.
+    destruct (ch_fold_components (merge_diff eq (Changes.last c) cur) (ChangeSet ∅ ∅ ∅)) as (Ha & Hr & Hu).
+    fold ch_step. rewrite Ha, Hr, Hu, !fold_diff_lookup. simpl. rewrite !lookup_empty.
+    destruct (diff_at eq (Changes.last c) cur k) as [[]|]; simpl; auto.
+  Qed.
+
+  (** ... is exactly the spec diff between the input at the previous recompute and now. *)
+  Theorem changes_exact c cur k x :
+    let v := Changes.value (Changes.Stabilize eq c cur) in
+    let d := merge_diff eq (Changes.last c) cur in
+    (cs_added v !! k = Some x <-> Added k x ∈ d) /\
+    (cs_removed v !! k = Some x <-> Removed k x ∈ d) /\
+    (cs_updated v !! k = Some x <-> exists old, Updated k old x ∈ d).
+  Proof.
+    intros v d. destruct (changes_lookup c cur k) as (Ha & Hr & Hu). fold v in Ha, Hr, Hu.
+    rewrite Ha, Hr, Hu. unfold d.
+    split; [|split].
+    - rewrite elem_of_merge_diff. simpl.
+      destruct (diff_at eq (Changes.last c) cur k) as [[k' y|k' y|k' o y]|] eqn:E; split; intros H; try discriminate.
+      + inversion H; subst. pose proof (classify_key _ _ _ _ _ E) as Hk. simpl in Hk. subst. reflexivity.
+      + inversion H; subst. reflexivity.
+    - rewrite elem_of_merge_diff. simpl.
+      destruct (diff_at eq (Changes.last c) cur k) as [[k' y|k' y|k' o y]|] eqn:E; split; intros H; try discriminate.
+      + inversion H; subst. pose proof (classify_key _ _ _ _ _ E) as Hk. simpl in Hk. subst. reflexivity.
+      + inversion H; subst. reflexivity.
+    - destruct (diff_at eq (Changes.last c) cur k) as [[k' y|k' y|k' o y]|] eqn:E; split; intros H; try discriminate;
+        try (destruct H as [old H]; apply elem_of_merge_diff in H; simpl in H; rewrite E in H; discriminate).
+      + inversion H; subst. exists o. apply elem_of_merge_diff. simpl.
+        pose proof (classify_key _ _ _ _ _ E) as Hk. simpl in Hk. subst. exact E.
+      + destruct H as [old H]. apply elem_of_merge_diff in H. simpl in H. rewrite E in H. inversion H; subst. reflexivity.
+  Qed.
+
+  (** the same, as an equation with the list-based [F_changes] *)
+  Lemma list_to_map_sel_lookup (sel : change -> option (Z * Z)) (d : list change) k x :
+    (forall c p, sel c = Some p -> p.1 = ckey c) -> NoDup (map ckey d) ->
+    (list_to_map (omap sel d) : zmap) !! k = Some x <-> exists c, c ∈ d /\ sel c = Some (k, x).
+  Proof.
+    intros Hsel Hnd. rewrite <- elem_of_list_to_map by (apply NoDup_omap_sel; assumption).
+    apply elem_of_list_omap.
+  Qed.
+
+  Theorem changes_value_eq c cur :
+    Changes.value (Changes.Stabilize eq c cur) = F_changes eq (Changes.last c) cur.
+  Proof.
+    assert (Hopt : forall (a b : zmap), (forall k x, a !! k = Some x <-> b !! k = Some x) -> a = b).
+    { intros a b H. apply map_eq. intros k. destruct (a !! k) as [x|] eqn:Ea.
+      - symmetry. apply H. exact Ea.
+      - destruct (b !! k) as [y|] eqn:Eb; [|reflexivity]. apply H in Eb. congruence. }
+    pose proof (NoDup_merge_diff_keys eq (Changes.last c) cur) as Hnd.
+    remember (Changes.value (Changes.Stabilize eq c cur)) as v eqn:Ev.
+    assert (Hx : forall k x,
+      (cs_added v !! k = Some x <-> Added k x ∈ merge_diff eq (Changes.last c) cur) /\
+      (cs_removed v !! k = Some x <-> Removed k x ∈ merge_diff eq (Changes.last c) cur) /\
+      (cs_updated v !! k = Some x <-> exists old, Updated k old x ∈ merge_diff eq (Changes.last c) cur)).
+    { intros k x. subst v. apply changes_exact. }
+    destruct v as [va vr vu]. unfold F_changes. simpl in Hx. f_equal; apply Hopt; intros k x.
+    - rewrite (proj1 (Hx k x)), list_to_map_sel_lookup; [|intros [] p Hp; inversion Hp; reflexivity|exact Hnd].
+      split; [intros H; exists (Added k x); auto|].
+      intros ([k' y|k' y|k' o y] & Hin & Hs); inversion Hs; subst; exact Hin.
+    - rewrite (proj1 (proj2 (Hx k x))), list_to_map_sel_lookup; [|intros [] p Hp; inversion Hp; reflexivity|exact Hnd].
+      split; [intros H; exists (Removed k x); auto|].
+      intros ([k' y|k' y|k' o y] & Hin & Hs); inversion Hs; subst; exact Hin.
+    - rewrite (proj2 (proj2 (Hx k x))), list_to_map_sel_lookup; [|intros [] p Hp; inversion Hp; reflexivity|exact Hnd].
+      split; [intros [old H]; exists (Updated k old x); auto|].
+      intros ([k' y|k' y|k' o y] & Hin & Hs); inversion Hs; subst; eauto.
+  Qed.
+
+  (** For every history: after the last recompute the value is the diff between the last two
+      inputs the node saw (the empty map before the first). *)
+  Theorem changes_correct (ms : list zmap) (m m' : zmap) :
+    Changes.value (fold_left (Changes.Stabilize eq) (ms ++ [m; m']) Changes.init) = F_changes eq m m'.
+  Proof.
+    rewrite fold_left_app. cbn [fold_left].
+    rewrite changes_value_eq. reflexivity.
+  Qed.
+
+  (** What the diff means, key by key. *)
+  Lemma merge_diff_meaning (m m' : zmap) k :
+    (forall v, Added k v ∈ merge_diff eq m m' <-> m !! k = None /\ m' !! k = Some v) /\
+    (forall v, Removed k v ∈ merge_diff eq m m' <-> m !! k = Some v /\ m' !! k = None) /\
+    (forall o v, Updated k o v ∈ merge_diff eq m m' <-> m !! k = Some o /\ m' !! k = Some v /\ veqb eq o v = false).
+  Proof.
+    split; [|split]; intros; rewrite elem_of_merge_diff; unfold diff_at, classify; simpl;
+      destruct (m !! k) as [a|], (m' !! k) as [b|]; try destruct (veqb eq a b) eqn:E;
+      split; intros H; try discriminate; try (inversion H; subst; auto; fail);
+      try (destruct H as (H1 & H2); try destruct H2 as (H2 & H3); try discriminate;
+           inversion H1; inversion H2; subst; try congruence; reflexivity).
+  Qed.
+End changes.
+
+(** * Merge *)
+Section merge.
+  Context (eqL eqR : eqfn) (fn : Z -> merge_element -> option Z).
+
+  Lemma keyed_lookup (m : zmap) k : keyed m !! k = (fun v => (k, v)) <$> m !! k.
+  Proof. unfold keyed. rewrite map_lookup_imap. destruct (m !! k); reflexivity. Qed.
+
+  Lemma F_merge_lookup (l r : zmap) k : F_merge fn l r !! k = merge_at fn k (l !! k) (r !! k).
+  Proof.
+    unfold F_merge. rewrite lookup_merge, !keyed_lookup.
+    destruct (l !! k) as [a|], (r !! k) as [b|]; reflexivity.
+  Qed.
+
+  (* what the loop writes at a key it visits *)
+  Definition merge_g (cl cr : zmap) (k : Z) : option Z := merge_at fn k (cl !! k) (cr !! k).
+
+  Lemma merge_loop_step_lookup (cl cr out : zmap) key :
+    (match cl !! key, cr !! key with
+     | None, None => delete key out
+     | l, r => match fn key (mk_element l r) with
+               | Some merged => <[key := merged]> out
+               | None => delete key out
+               end
+     end) = partial_alter (fun _ => merge_g cl cr key) key out.
+  Proof.
+    unfold merge_g, merge_at.
+    destruct (cl !! key) as [a|], (cr !! key) as [b|]; try reflexivity;
+      destruct (fn key _); reflexivity.
+  Qed.
+
+  Lemma merge_loop_lookup (cl cr : zmap) touched first previous out k :
+    (first = false -> out !! previous = merge_g cl cr previous) ->
+    Merge.loop fn cl cr touched first previous out !! k =
+    if decide (k ∈ touched) then merge_g cl cr k else out !! k.
+  Proof.
+    revert first previous out. induction touched as [|key touched IH]; intros first previous out Hprev; simpl.
+    { destruct (decide (k ∈ [])) as [H|]; [inversion H|reflexivity]. }
+    destruct (negb first && (key =? previous)) eqn:Eskip.
+    - apply andb_true_iff in Eskip as [Hf Hk]. apply negb_true_iff in Hf. apply Z.eqb_eq in Hk. subst key.
+      rewrite IH by (intros _; apply Hprev; exact Hf).
+      destruct (decide (k ∈ touched)) as [Hin|Hnin].
+      + destruct (decide (k ∈ previous :: touched)) as [_|Hn]; [reflexivity|exfalso; apply Hn; right; exact Hin].
+      + destruct (decide (k ∈ previous :: touched)) as [Hin'|_]; [|reflexivity].
+        apply elem_of_cons in Hin' as [->|?]; [|contradiction]. apply Hprev. exact Hf.
+    - match goal with |- Merge.loop _ _ _ _ false key ?o !! _ = _ =>
+        assert (Ho : o = partial_alter (fun _ => merge_g cl cr key) key out)
+          by (unfold merge_g, merge_at; destruct (cl !! key), (cr !! key); try reflexivity;
+              destruct (fn key _); reflexivity);
+        rewrite Ho; clear Ho end.
+      rewrite IH by (intros _; rewrite lookup_partial_alter; reflexivity).
+      destruct (decide (k = key)) as [->|Hne].
+      + destruct (decide (key ∈ key :: touched)) as [_|Hn]; [|exfalso; apply Hn; left].
+        destruct (decide (key ∈ touched)); [reflexivity|]. rewrite lookup_partial_alter. reflexivity.
+      + rewrite lookup_partial_alter_ne by congruence.
+        destruct (decide (k ∈ touched)) as [Hin|Hnin].
+        * destruct (decide (k ∈ key :: touched)) as [_|Hn]; [reflexivity|exfalso; apply Hn; right; exact Hin].
+        * destruct (decide (k ∈ key :: touched)) as [Hin'|_]; [|reflexivity].
+          inversion Hin'; subst; [congruence|contradiction].
+  Qed.
+
+  Lemma elem_of_diff_keys eq (m m' : zmap) k :
+    k ∈ map ckey (merge_diff eq m m') <-> diff_at eq m m' k <> None.
+  Proof.
+    rewrite elem_of_list_fmap. split.
+    - intros (c & -> & Hc). apply elem_of_merge_diff in Hc. rewrite Hc. discriminate.
+    - intros Hd. destruct (diff_at eq m m' k) as [c|] eqn:E; [|congruence].
+      exists c. pose proof (classify_key _ _ _ _ _ E) as Hk. split; [congruence|].
+      apply elem_of_merge_diff. rewrite Hk. exact E.
+  Qed.
+
+  Definition merge_respects : Prop :=
+    (forall k a a' r, veqb eqL a a' = true -> merge_at fn k (Some a) r = merge_at fn k (Some a') r) /\
+    (forall k l b b', veqb eqR b b' = true -> merge_at fn k l (Some b) = merge_at fn k l (Some b')).
+
+  Lemma merge_step s cl cr :
+    merge_respects ->
+    Merge.value s = F_merge fn (Merge.lastLeft s) (Merge.lastRight s) ->
+    Merge.value (Merge.Stabilize eqL eqR fn s cl cr) = F_merge fn cl cr.
+  Proof.
+    intros [HrL HrR] Hinv. apply map_eq. intros k.
+    unfold Merge.Stabilize; simpl.
+    rewrite merge_loop_lookup by discriminate.
+    rewrite F_merge_lookup.
+    destruct (decide (k ∈ _)) as [Hin|Hnin]; [reflexivity|].
+    rewrite merge_sort_Permutation, elem_of_app, !elem_of_diff_keys in Hnin.
+    assert (HL : diff_at eqL (Merge.lastLeft s) cl k = None).
+    { destruct (diff_at eqL (Merge.lastLeft s) cl k) eqn:E; [|reflexivity]. exfalso. apply Hnin. left. discriminate. }
+    assert (HR : diff_at eqR (Merge.lastRight s) cr k = None).
+    { destruct (diff_at eqR (Merge.lastRight s) cr k) eqn:E; [|reflexivity]. exfalso. apply Hnin. right. discriminate. }
+    rewrite Hinv, F_merge_lookup. unfold diff_at, classify in HL, HR.
+    destruct (Merge.lastLeft s !! k) as [a|], (cl !! k) as [a'|]; try discriminate;
+      destruct (Merge.lastRight s !! k) as [b|], (cr !! k) as [b'|]; try discriminate;
+      try reflexivity;
+      try (destruct (veqb eqL a a') eqn:EL; [|discriminate]);
+      try (destruct (veqb eqR b b') eqn:ER; [|discriminate]).
+    - rewrite (HrL _ _ _ _ EL). apply HrR. exact ER.
+    - apply HrL. exact EL.
+    - apply HrR. exact ER.
+  Qed.
+
+  Theorem merge_correct (ms : list (zmap * zmap)) :
+    merge_respects ->
+    Merge.value (fold_left (fun s x => Merge.Stabilize eqL eqR fn s x.1 x.2) ms Merge.init)
+    = F_merge fn (List.last ms (∅, ∅)).1 (List.last ms (∅, ∅)).2.
+  Proof.
+    intros Hr.
+    destruct (history_inv (fun s (x : zmap * zmap) => Merge.Stabilize eqL eqR fn s x.1 x.2)
+                (fun s => Merge.value s = F_merge fn (Merge.lastLeft s) (Merge.lastRight s))
+                (fun s => (Merge.lastLeft s, Merge.lastRight s)) Merge.init ms) as [HP Hc].
+    - apply map_eq. intros k. rewrite F_merge_lookup. simpl. rewrite !lookup_empty. reflexivity.
+    - intros s x Hs. apply (merge_step s x.1 x.2 Hr Hs).
+    - intros s [a b]. reflexivity.
+    - rewrite HP. change (∅, ∅) with (Merge.lastLeft Merge.init, Merge.lastRight Merge.init).
+      rewrite <- Hc. reflexivity.
+  Qed.
+End merge.
+
+(** * Subrange *)
+
+Lemma fold_insert_lookup (l : list (Z * Z)) (out : zmap) k :
+  NoDup (map fst l) ->
+  fold_left (fun o kv => <[kv.1 := kv.2]> o) l out !! k =
+  match list_find (fun kv => kv.1 = k) l with Some (_, kv) => Some kv.2 | None => out !! k end.
+Proof.
+  revert out. induction l as [|[k0 v0] l IH]; intros out Hnd; simpl; [reflexivity|].
+  inversion Hnd as [|? ? Hk0 Hnd']; subst. rewrite IH by assumption. simpl.
+  destruct (decide (k0 = k)) as [->|Hne].
+  - destruct (list_find _ l) as [[i [k1 v1]]|] eqn:E; simpl.
+    + apply list_find_Some in E as (Hl & Hk1 & _). simpl in Hk1. subst k1.
+      exfalso. apply Hk0. apply elem_of_list_fmap. exists (k, v1). split; [reflexivity|].
+      eapply elem_of_list_lookup_2. exact Hl.
+    + apply lookup_insert.
+  - destruct (list_find _ l) as [[i [k1 v1]]|]; simpl; [reflexivity|].
+    apply lookup_insert_ne. exact Hne.
+Qed.
+
+Lemma NoDup_fst_filter (P : Z * Z -> Prop) `{!forall x, Decision (P x)} (l : list (Z * Z)) :
+  NoDup (map fst l) -> NoDup (map fst (filter P l)).
+Proof.
+  induction l as [|x l IH]; intros Hnd; [constructor|].
+  inversion Hnd as [|? ? Hx Hnd']; subst. rewrite filter_cons. destruct (decide (P x)); [|auto].
+  simpl. constructor; [|auto]. intros Hin. apply Hx.
+  apply elem_of_list_fmap in Hin as (y & Hy & Hin). apply elem_of_list_filter in Hin as [_ Hin].
+  apply elem_of_list_fmap. eauto.
+Qed.
+
+Lemma list_to_map_fold_insert (l : list (Z * Z)) (m : zmap) :
+  NoDup (map fst l) ->
+  (forall k v, (k, v) ∈ l <-> m !! k = Some v) ->
+  fold_left (fun o kv => <[kv.1 := kv.2]> o) l ∅ = m.
+Proof.
+  intros Hnd Hl. apply map_eq. intros k. rewrite fold_insert_lookup by assumption.
+  destruct (list_find _ l) as [[i [k1 v1]]|] eqn:E; simpl.
+  - apply list_find_Some in E as (Hi & Hk1 & _). simpl in Hk1. subst k1. symmetry. apply Hl.
+    eapply elem_of_list_lookup_2. exact Hi.
+  - rewrite lookup_empty. destruct (m !! k) as [v|] eqn:Em; [|reflexivity].
+    apply Hl in Em. apply elem_of_list_lookup in Em as [i Hi].
+    pose proof (proj1 (list_find_None _ _) E) as Hall. rewrite Forall_forall in Hall.
+    exfalso. apply (Hall (k, v)); [eapply elem_of_list_lookup_2; exact Hi|reflexivity].
+Qed.
+
+Section subrange.
+  Context (eq : eqfn).
+
+  Lemma F_subrange_lookup (m : zmap) lo hi k :
+    F_subrange m lo hi !! k = if in_bounds lo hi k then m !! k else None.
+  Proof.
+    unfold F_subrange. destruct (in_bounds lo hi k) eqn:Eb.
+    - destruct (m !! k) as [v|] eqn:Em.
+      + apply map_filter_lookup_Some. auto.
+      + apply map_filter_lookup_None. left. exact Em.
+    - apply map_filter_lookup_None. right. intros v _. simpl. rewrite Eb. discriminate.
+  Qed.
+
+  Lemma subrange_rebuild (current : zmap) lo hi :
+    fold_left (fun out kv => <[kv.1 := kv.2]> out) (Subrange.Range current lo hi) ∅ = F_subrange current lo hi.
+  Proof.
+    apply list_to_map_fold_insert.
+    - unfold Subrange.Range. apply NoDup_fst_filter. apply NoDup_entries_fst.
+    - intros k v. unfold Subrange.Range. rewrite elem_of_list_filter, elem_of_entries. simpl.
+      rewrite F_subrange_lookup. destruct (in_bounds lo hi k); split; try tauto; try (intros [? ?]; discriminate); discriminate.
+  Qed.
+
+  Definition sr_h (lo hi : Z) (c : change) (old : option Z) : option Z :=
+    if (ckey c <? lo) || (hi <? ckey c) then old
+    else match c with
+         | Removed _ _ => None
+         | Added _ v | Updated _ _ v => Some v
+         end.
+
+  Lemma in_bounds_skip lo hi k : (k <? lo) || (hi <? k) = negb (in_bounds lo hi k).
+  Proof. unfold in_bounds. destruct (k <? lo) eqn:E1, (hi <? k) eqn:E2, (lo <=? k) eqn:E3, (k <=? hi) eqn:E4; simpl; try reflexivity; lia. Qed.
+
+  Lemma subrange_step s current bounds :
+    eq_exact eq ->
+    Subrange.value s = F_subrange (Subrange.last s) (Subrange.lastBounds s).1 (Subrange.lastBounds s).2 ->
+    let s' := Subrange.Stabilize eq s current bounds in
+    Subrange.value s' = F_subrange current bounds.1 bounds.2 /\
+    Subrange.last s' = current /\ Subrange.lastBounds s' = bounds.
+  Proof.
+    intros Hex Hinv. unfold Subrange.Stabilize.
+    destruct (negb (Subrange.haveBounds s) || negb (Subrange.bounds_eqb bounds (Subrange.lastBounds s))) eqn:Eb; simpl.
+    - split; [apply subrange_rebuild|auto].
+    - apply orb_false_iff in Eb as [_ Eb]. apply negb_false_iff in Eb.
+      unfold Subrange.bounds_eqb in Eb. apply andb_true_iff in Eb as [E1 E2].
+      apply Z.eqb_eq in E1, E2.
+      assert (Hb : Subrange.lastBounds s = bounds) by (destruct bounds, (Subrange.lastBounds s); simpl in *; congruence).
+      split; [|auto].
+      rewrite (fold_left_ext' _ (fun o c => partial_alter (sr_h bounds.1 bounds.2 c) (ckey c) o)).
+      2:{ intros o c. unfold sr_h. destruct ((ckey c <? bounds.1) || (bounds.2 <? ckey c)).
+          - symmetry. apply partial_alter_id.
+          - destruct c; reflexivity. }
+      apply map_eq. intros k. rewrite fold_diff_lookup, Hinv, Hb, !F_subrange_lookup.
+      unfold diff_at, classify, sr_h.
+      destruct (Subrange.last s !! k) as [v|] eqn:El, (current !! k) as [v'|] eqn:Ec; simpl;
+        rewrite ?in_bounds_skip; try (destruct (in_bounds bounds.1 bounds.2 k); reflexivity).
+      destruct (veqb eq v v') eqn:Ev; simpl.
+      + rewrite (Hex _ _ Ev). reflexivity.
+      + rewrite in_bounds_skip. destruct (in_bounds bounds.1 bounds.2 k); reflexivity.
+  Qed.
+
+  Theorem subrange_correct (ms : list (zmap * (Z * Z))) :
+    eq_exact eq ->
+    let final := List.last ms (∅, (0, 0)) in
+    Subrange.value (fold_left (fun s x => Subrange.Stabilize eq s x.1 x.2) ms Subrange.init)
+    = F_subrange final.1 final.2.1 final.2.2.
+  Proof.
+    intros Hex final.
+    destruct (history_inv (fun s (x : zmap * (Z * Z)) => Subrange.Stabilize eq s x.1 x.2)
+                (fun s => Subrange.value s = F_subrange (Subrange.last s) (Subrange.lastBounds s).1 (Subrange.lastBounds s).2)
+                (fun s => (Subrange.last s, Subrange.lastBounds s)) Subrange.init ms) as [HP Hc].
+    - apply map_eq. intros k. rewrite F_subrange_lookup. simpl. rewrite lookup_empty. destruct (in_bounds 0 0 k); reflexivity.
+    - intros s x Hs. destruct (subrange_step s x.1 x.2 Hex Hs) as (Hv & Hl & Hb). rewrite Hv, Hl, Hb. reflexivity.
+    - intros s x. destruct (Subrange.Stabilize eq s x.1 x.2) eqn:E.
+      unfold Subrange.Stabilize in E.
+      destruct (negb (Subrange.haveBounds s) || negb (Subrange.bounds_eqb x.2 (Subrange.lastBounds s))) eqn:Eb;
+        inversion E; subst; simpl; [destruct x as [? []]; reflexivity|].
+      apply orb_false_iff in Eb as [_ Eb]. apply negb_false_iff in Eb.
+      unfold Subrange.bounds_eqb in Eb. apply andb_true_iff in Eb as [E1 E2].
+      apply Z.eqb_eq in E1, E2. destruct x as [m [lo hi]], (Subrange.lastBounds s); simpl in *. congruence.
+    - rewrite HP. unfold final. change (∅, (0, 0)) with (Subrange.last Subrange.init, Subrange.lastBounds Subrange.init).
+      rewrite <- Hc. reflexivity.
+  Qed.
+End subrange.
+
+(** * Partition *)
+Section partition.
+  Context (eq : eqfn) (p : Z -> Z -> bool).
+
+  Definition pt_h (side : bool) (c : change) (_ : option Z) : option Z :=
+    match c with
+    | Removed _ _ => None
+    | Added k v | Updated k _ v => if Bool.eqb (p k v) side then Some v else None
+    end.
+
+  Definition pt_step (out : zmap * zmap) (change : change) : zmap * zmap :=
+    match change with
+    | Removed key _ => (delete key out.1, delete key out.2)
+    | Added key new | Updated key _ new =>
+        if p key new then (<[key := new]> out.1, delete key out.2)
+        else (delete key out.1, <[key := new]> out.2)
+    end.
+
+  Lemma pt_fold_components (cs : list change) (acc : zmap * zmap) :
+    let r := fold_left pt_step cs acc in
+    r.1 = fold_left (fun o c => partial_alter (pt_h true c) (ckey c) o) cs acc.1 /\
+    r.2 = fold_left (fun o c => partial_alter (pt_h false c) (ckey c) o) cs acc.2.
+  Proof.
+    revert acc. induction cs as [|c cs IH]; intros acc; simpl; [auto|].
+    destruct (IH (pt_step acc c)) as (H1 & H2). rewrite H1, H2.
+    destruct c as [k v|k v|k o v]; simpl; unfold pt_h; try destruct (p k v); simpl; auto.
+  Qed.
+
+  Lemma filter_lookup_bool (b : bool) (m : zmap) k :
+    filter (fun kv : Z * Z => p kv.1 kv.2 = b) m !! k =
+    match m !! k with Some v => if Bool.eqb (p k v) b then Some v else None | None => None end.
+  Proof.
+    destruct (m !! k) as [v|] eqn:Em.
+    - destruct (Bool.eqb (p k v) b) eqn:E.
+      + apply map_filter_lookup_Some. split; [exact Em|]. simpl. apply eqb_prop. exact E.
+      + apply map_filter_lookup_None. right. intros v' Hv'. rewrite Em in Hv'. inversion Hv'; subst. simpl.
+        intros Hp. rewrite Hp in E. rewrite eqb_reflx in E. discriminate.
+    - apply map_filter_lookup_None. left. exact Em.
+  Qed.
+
+  Lemma partition_step s current :
+    eq_exact eq ->
+    Partition.value s = F_partition p (Partition.last s) ->
+    Partition.value (Partition.Stabilize eq p s current) = F_partition p current.
+  Proof.
+    intros Hex Hinv. unfold Partition.Stabilize; simpl. fold pt_step.
+    destruct (pt_fold_components (merge_diff eq (Partition.last s) current) (Partition.value s)) as (H1 & H2).
+    rewrite (surjective_pairing (fold_left pt_step _ _)), H1, H2, Hinv. unfold F_partition. simpl.
+    f_equal; apply map_eq; intros k; rewrite fold_diff_lookup, !filter_lookup_bool; unfold diff_at, classify;
+      destruct (Partition.last s !! k) as [v|] eqn:El, (current !! k) as [v'|] eqn:Ec; simpl; try reflexivity;
+      (destruct (veqb eq v v') eqn:Ev; simpl; [rewrite (Hex _ _ Ev)|]; reflexivity).
+  Qed.
+
+  Theorem partition_correct (ms : list zmap) :
+    eq_exact eq ->
+    Partition.value (fold_left (Partition.Stabilize eq p) ms Partition.init) = F_partition p (List.last ms ∅).
+  Proof.
+    intros Hex.
+    destruct (history_inv (Partition.Stabilize eq p)
+                (fun s => Partition.value s = F_partition p (Partition.last s))
+                Partition.last Partition.init ms) as [HP Hc].
+    - unfold F_partition. simpl. rewrite !map_filter_empty. reflexivity.
+    - intros s x Hs. apply (partition_step s x Hex Hs).
+    - reflexivity.
+    - rewrite HP, Hc. reflexivity.
+  Qed.
+End partition.
+
+(** * UnorderedFold, Sum, Cardinality, Counti *)
+
+Definition apply_change (m : zmap) (c : change) : zmap :=
+  match c with
+  | Added k v => <[k := v]> m
+  | Removed k _ => delete k m
+  | Updated k _ v => <[k := v]> m
+  end.
+
+Definition change_valid (c : change) (m : zmap) : Prop :=
+  match c with
+  | Added k _ => m !! k = None
+  | Removed k v => m !! k = Some v
+  | Updated k o _ => m !! k = Some o
+  end.
+
+Lemma change_valid_other c c' m : ckey c <> ckey c' -> change_valid c' m -> change_valid c' (apply_change m c).
+Proof.
+  intros Hne. destruct c as [k v|k v|k o v], c' as [k' v'|k' v'|k' o' v']; simpl in *; intros H;
+    rewrite ?lookup_insert_ne, ?lookup_delete_ne by congruence; exact H.
+Qed.
+
+Lemma merge_diff_valid eq (m m' : zmap) c : c ∈ merge_diff eq m m' -> change_valid c m.
+Proof.
+  intros Hc. apply elem_of_merge_diff in Hc. unfold diff_at, classify in Hc.
+  destruct (m !! ckey c) as [a|] eqn:Em, (m' !! ckey c) as [b|]; try destruct (veqb eq a b);
+    inversion Hc as [Hc']; rewrite <- Hc' in Em; simpl in *; exact Em.
+Qed.
+
+Definition ap_h (c : change) (_ : option Z) : option Z :=
+  match c with Added _ v => Some v | Removed _ _ => None | Updated _ _ v => Some v end.
+
+Lemma applied_lookup eq (m m' : zmap) k :
+  fold_left apply_change (merge_diff eq m m') m !! k =
+  match diff_at eq m m' k with Some c => ap_h c None | None => m !! k end.
+Proof.
+  rewrite (fold_left_ext' _ (fun o c => partial_alter (ap_h c) (ckey c) o)).
+  - rewrite fold_diff_lookup. destruct (diff_at eq m m' k) as [[]|]; reflexivity.
+  - intros o []; reflexivity.
+Qed.
+
+Section unordered_fold.
+  Context {B : Type} (eq : eqfn) (add remove : B -> Z -> Z -> B) (initial : B).
+
+  (** the documented contract *)
+  Hypothesis add_comm : forall a k1 v1 k2 v2, add (add a k1 v1) k2 v2 = add (add a k2 v2) k1 v1.
+  Hypothesis remove_add : forall a k v, remove (add a k v) k v = a.
+  (** ... and [equal] may only identify values [add] cannot tell apart *)
+  Hypothesis add_respects : forall a k v v', veqb eq v v' = true -> add a k v = add a k v'.
+
+  Notation F := (F_fold add initial).
+
+  Lemma F_fold_insert (m : zmap) k v : m !! k = None -> F (<[k := v]> m) = add (F m) k v.
+  Proof.
+    intros Hk. unfold F_fold.
+    rewrite (map_fold_insert_L (fun k v acc => add acc k v) initial k v m); [reflexivity| |exact Hk].
+    intros. apply add_comm.
+  Qed.
+
+  Lemma F_fold_delete (m : zmap) k v : m !! k = Some v -> F m = add (F (delete k m)) k v.
+  Proof.
+    intros Hk. rewrite <- (insert_delete m k v Hk) at 1. apply F_fold_insert. apply lookup_delete.
+  Qed.
+
+  Definition uf_step (acc : B) (change : change) : B :=
+    match change with
+    | Added key new => add acc key new
+    | Removed key old => remove acc key old
+    | Updated key old new => add (remove acc key old) key new
+    end.
+
+  Lemma uf_step_valid (m : zmap) c : change_valid c m -> uf_step (F m) c = F (apply_change m c).
+  Proof.
+    destruct c as [k v|k v|k o v]; simpl; intros Hv.
+    - symmetry. apply F_fold_insert. exact Hv.
+    - rewrite (F_fold_delete m k v Hv). apply remove_add.
+    - rewrite (F_fold_delete m k o Hv), remove_add.
+      rewrite <- (insert_delete_insert m k v). symmetry. apply F_fold_insert. apply lookup_delete.
+  Qed.
+
+  Lemma uf_fold_valid (cs : list change) (m : zmap) :
+    NoDup (map ckey cs) -> (forall c, c ∈ cs -> change_valid c m) ->
+    fold_left uf_step cs (F m) = F (fold_left apply_change cs m).
+  Proof.
+    revert m. induction cs as [|c cs IH]; intros m Hnd Hv; simpl; [reflexivity|].
+    inversion Hnd as [|? ? Hc Hnd']; subst.
+    rewrite uf_step_valid by (apply Hv; left). apply IH; [exact Hnd'|].
+    intros c' Hc'. apply change_valid_other; [|apply Hv; right; exact Hc'].
+    intros Heq. apply Hc. rewrite Heq. apply elem_of_list_fmap. eauto.
+  Qed.
+
+  Definition add_equiv (k : Z) (a b : option Z) : Prop :=
+    match a, b with
+    | None, None => True
+    | Some v, Some v' => forall acc, add acc k v = add acc k v'
+    | _, _ => False
+    end.
+
+  Lemma F_fold_congruence (m1 m2 : zmap) :
+    (forall k, add_equiv k (m1 !! k) (m2 !! k)) -> F m1 = F m2.
+  Proof.
+    revert m2. induction m1 as [|i x m Hi IH] using map_ind; intros m2 Hrel.
+    - assert (m2 = ∅) as ->; [|reflexivity]. apply map_empty. intros k. specialize (Hrel k).
+      rewrite lookup_empty in Hrel. destruct (m2 !! k); [contradiction|reflexivity].
+    - pose proof (Hrel i) as Hi2. rewrite lookup_insert in Hi2.
+      destruct (m2 !! i) as [y|] eqn:E2; [|contradiction]. simpl in Hi2.
+      rewrite (F_fold_insert m i x Hi), (F_fold_delete m2 i y E2), <- Hi2. f_equal.
+      apply IH. intros k. destruct (decide (k = i)) as [->|Hne].
+      + rewrite Hi, lookup_delete. exact I.
+      + rewrite lookup_delete_ne by congruence. specialize (Hrel k).
+        rewrite lookup_insert_ne in Hrel by congruence. exact Hrel.
+  Qed.
+
+  Lemma uf_step_correct s current :
+    UnorderedFold.value s = F (UnorderedFold.last s) ->
+    UnorderedFold.value (UnorderedFold.Stabilize eq add remove s current) = F current.
+  Proof.
+    intros Hinv. unfold UnorderedFold.Stabilize; simpl. fold uf_step. rewrite Hinv.
+    rewrite uf_fold_valid; [|apply NoDup_merge_diff_keys|intros c; apply merge_diff_valid].
+    apply F_fold_congruence. intros k. rewrite applied_lookup. unfold diff_at, classify, add_equiv.
+    destruct (UnorderedFold.last s !! k) as [v|] eqn:El, (current !! k) as [v'|] eqn:Ec; simpl; auto.
+    destruct (veqb eq v v') eqn:Ev; simpl; [|auto]. intros acc. apply add_respects. exact Ev.
+  Qed.
+
+  Theorem unordered_fold_correct (ms : list zmap) :
+    UnorderedFold.value (fold_left (UnorderedFold.Stabilize eq add remove) ms (UnorderedFold.init initial))
+    = F (List.last ms ∅).
+  Proof.
+    destruct (history_inv (UnorderedFold.Stabilize eq add remove)
+                (fun s => UnorderedFold.value s = F (UnorderedFold.last s))
+                UnorderedFold.last (UnorderedFold.init initial) ms) as [HP Hc].
+    - reflexivity.
+    - intros s x Hs. apply (uf_step_correct s x Hs).
+    - reflexivity.
+    - rewrite HP, Hc. reflexivity.
+  Qed.
+
+  (** the "unordered": under the contract the fold does not depend on the order, in
+      particular it is the fold in key order *)
+  Lemma F_fold_key_order (m : zmap) :
+    F m = fold_left (fun acc kv => add acc kv.1 kv.2) (entries m) initial.
+  Proof.
+    assert (H : forall (l : list (Z * Z)) (m : zmap), NoDup (map fst l) ->
+              (forall k v, (k, v) ∈ l <-> m !! k = Some v) ->
+              F m = fold_left (fun acc kv => add acc kv.1 kv.2) l initial).
+    { clear m. induction l as [|[k v] l IH] using rev_ind; intros m Hnd Hl.
+      - assert (m = ∅) as ->; [|reflexivity]. apply map_empty. intros k.
+        destruct (m !! k) as [v|] eqn:E; [|reflexivity]. apply Hl in E. inversion E.
+      - rewrite fold_left_app. simpl. rewrite map_app in Hnd. apply NoDup_app in Hnd as (Hnd1 & Hdisj & _).
+        assert (Hk : m !! k = Some v) by (apply Hl, elem_of_app; right; left).
+        rewrite (F_fold_delete m k v Hk). f_equal. apply IH; [exact Hnd1|].
+        intros k' v'. split.
+        + intros Hin. assert (k' <> k).
+          { intros ->. apply (Hdisj k); [apply elem_of_list_fmap; exists (k, v'); auto|left]. }
+          rewrite lookup_delete_ne by congruence. apply Hl, elem_of_app. left. exact Hin.
+        + intros Hd. destruct (decide (k' = k)) as [->|Hne]; [rewrite lookup_delete in Hd; discriminate|].
+          rewrite lookup_delete_ne in Hd by congruence. apply Hl, elem_of_app in Hd as [Hd|Hd]; [exact Hd|].
+          apply elem_of_list_singleton in Hd. congruence. }
+    apply H; [apply NoDup_entries_fst|apply elem_of_entries].
+  Qed.
+End unordered_fold.
+
+Theorem sum_correct (eq : eqfn) (ms : list zmap) :
+  eq_exact eq ->
+  UnorderedFold.value (fold_left (UnorderedFold.Sum_Stabilize eq) ms UnorderedFold.Sum_init)
+  = F_sum (List.last ms ∅).
+Proof.
+  intros Hex. unfold UnorderedFold.Sum_Stabilize, UnorderedFold.Sum_init.
+  rewrite unordered_fold_correct; [reflexivity| | |]; unfold UnorderedFold.sum_add, UnorderedFold.sum_remove; intros; try lia.
+  rewrite (Hex v v') by assumption. reflexivity.
+Qed.
+
+Lemma eq_exact_eqb : eq_exact (Some Z.eqb).
+Proof. intros a b H. apply Z.eqb_eq. exact H. Qed.
+
+Lemma F_cardinality_fold (m : zmap) : F_fold UnorderedFold.card_add 0 m = F_cardinality m.
+Proof.
+  unfold F_fold, F_cardinality.
+  apply (map_fold_ind (fun r (m : zmap) => r = Z.of_nat (size m))).
+  - rewrite map_size_empty. reflexivity.
+  - intros i x m' r Hi ->. rewrite map_size_insert_None by exact Hi. unfold UnorderedFold.card_add. lia.
+Qed.
+
+Theorem cardinality_correct (ms : list zmap) :
+  UnorderedFold.value (fold_left UnorderedFold.Cardinality_Stabilize ms UnorderedFold.Cardinality_init)
+  = F_cardinality (List.last ms ∅).
+Proof.
+  unfold UnorderedFold.Cardinality_Stabilize, UnorderedFold.Cardinality_init.
+  rewrite unordered_fold_correct; [apply F_cardinality_fold| | |];
+    unfold UnorderedFold.card_add, UnorderedFold.card_remove; intros; try lia; reflexivity.
+Qed.
+
+Lemma F_counti_fold (p : Z -> Z -> bool) (m : zmap) :
+  F_fold (UnorderedFold.counti_add p) 0 m = F_counti p m.
+Proof.
+  unfold F_fold, F_counti.
+  apply (map_fold_ind (fun r (m : zmap) => r = Z.of_nat (size (filter (fun kv : Z * Z => p kv.1 kv.2 = true) m)))).
+  - rewrite map_filter_empty, map_size_empty. reflexivity.
+  - intros i x m' r Hi ->. unfold UnorderedFold.counti_add, UnorderedFold.count.
+    destruct (p i x) eqn:Ep.
+    + rewrite map_filter_insert_True by exact Ep. rewrite map_size_insert_None; [lia|].
+      apply map_filter_lookup_None. left. exact Hi.
+    + rewrite map_filter_insert_False by (simpl; rewrite Ep; discriminate).
+      rewrite delete_notin by exact Hi. reflexivity.
+Qed.
+
+Theorem counti_correct (eq : eqfn) (p : Z -> Z -> bool) (ms : list zmap) :
+  respects eq p ->
+  UnorderedFold.value (fold_left (UnorderedFold.Counti_Stabilize eq p) ms UnorderedFold.Counti_init)
+  = F_counti p (List.last ms ∅).
+Proof.
+  intros Hr. unfold UnorderedFold.Counti_Stabilize, UnorderedFold.Counti_init.
+  rewrite unordered_fold_correct; [apply F_counti_fold| | |];
+    unfold UnorderedFold.counti_add, UnorderedFold.counti_remove, UnorderedFold.count; intros.
+  - destruct (p k1 v1), (p k2 v2); lia.
+  - destruct (p k v); lia.
+  - rewrite (Hr k v v') by assumption. reflexivity.
+Qed.
+
+(** * Reduce, MaxValue, MinValue *)
+
+Lemma entries_empty : entries (∅ : zmap) = [].
+Proof. unfold entries, keys_of, sorted_keys. rewrite dom_empty_L, elements_empty. reflexivity. Qed.
+
+Lemma reduce_stabilize {R} (empty : R) project combine (s : R) (m : zmap) :
+  Reduce.Stabilize empty project combine s m = F_reduce empty project combine m.
+Proof. unfold Reduce.Stabilize, Reduce.reducer_Reduce, F_reduce. destruct (fold1 _ _); reflexivity. Qed.
+
+Lemma fold_left_stateless {S I} (g : I -> S) (ms : list I) (init : S) (d : I) :
+  init = g d -> fold_left (fun _ x => g x) ms init = g (List.last ms d).
+Proof.
+  revert init d. induction ms as [|m ms IH]; intros init d Hinit; simpl; [exact Hinit|].
+  rewrite (IH (g m) m eq_refl). destruct ms as [|m' ms]; [reflexivity|].
+  f_equal. apply last_cons_indep.
+Qed.
+
+Theorem reduce_correct {R} (empty : R) project combine (ms : list zmap) :
+  fold_left (Reduce.Stabilize empty project combine) ms (Reduce.init empty)
+  = F_reduce empty project combine (List.last ms ∅).
+Proof.
+  rewrite (fold_left_ext' _ (fun _ x => F_reduce empty project combine x)) by (intros; apply reduce_stabilize).
+  apply fold_left_stateless. unfold F_reduce, Reduce.init. rewrite entries_empty. reflexivity.
+Qed.
+
+Lemma fold_left_max_combine (vs : list Z) (a : Z) :
+  fold_left Reduce.max_combine (map (fun v => (v, true)) vs) (a, true) = (fold_left Z.max vs a, true).
+Proof.
+  revert a. induction vs as [|v vs IH]; intros a; simpl; [reflexivity|].
+  unfold Reduce.max_combine at 2. simpl. destruct (a <? v) eqn:E.
+  - rewrite IH. f_equal. f_equal. lia.
+  - rewrite IH. f_equal. f_equal. lia.
+Qed.
+
+Lemma fold_left_min_combine (vs : list Z) (a : Z) :
+  fold_left Reduce.min_combine (map (fun v => (v, true)) vs) (a, true) = (fold_left Z.min vs a, true).
+Proof.
+  revert a. induction vs as [|v vs IH]; intros a; simpl; [reflexivity|].
+  unfold Reduce.min_combine at 2. simpl. destruct (v <? a) eqn:E.
+  - rewrite IH. f_equal. f_equal. lia.
+  - rewrite IH. f_equal. f_equal. lia.
+Qed.
+
+Lemma F_reduce_max (m : zmap) :
+  F_reduce Reduce.optional_empty Reduce.optional_project Reduce.max_combine m = F_max_value m.
+Proof.
+  unfold F_reduce, F_max_value.
+  replace (map (fun kv : Z * Z => Reduce.optional_project kv.1 kv.2) (entries m))
+    with (map (fun v => (v, true)) (map snd (entries m))) by (rewrite map_map; reflexivity).
+  destruct (map snd (entries m)) as [|v vs]; simpl; [reflexivity|]. apply fold_left_max_combine.
+Qed.
+
+Lemma F_reduce_min (m : zmap) :
+  F_reduce Reduce.optional_empty Reduce.optional_project Reduce.min_combine m = F_min_value m.
+Proof.
+  unfold F_reduce, F_min_value.
+  replace (map (fun kv : Z * Z => Reduce.optional_project kv.1 kv.2) (entries m))
+    with (map (fun v => (v, true)) (map snd (entries m))) by (rewrite map_map; reflexivity).
+  destruct (map snd (entries m)) as [|v vs]; simpl; [reflexivity|]. apply fold_left_min_combine.
+Qed.
+
+Theorem max_value_correct (ms : list zmap) :
+  fold_left Reduce.MaxValue_Stabilize ms (Reduce.init Reduce.optional_empty) = F_max_value (List.last ms ∅).
+Proof. unfold Reduce.MaxValue_Stabilize. rewrite reduce_correct. apply F_reduce_max. Qed.
+
+Theorem min_value_correct (ms : list zmap) :
+  fold_left Reduce.MinValue_Stabilize ms (Reduce.init Reduce.optional_empty) = F_min_value (List.last ms ∅).
+Proof. unfold Reduce.MinValue_Stabilize. rewrite reduce_correct. apply F_reduce_min. Qed.
+
+(** [F_max_value] / [F_min_value] really are the extremes of the map's values. *)
+Lemma fold_left_max_spec (vs : list Z) (a : Z) :
+  let r := fold_left Z.max vs a in (r = a \/ r ∈ vs) /\ a <= r /\ forall v, v ∈ vs -> v <= r.
+Proof.
+  revert a. induction vs as [|v vs IH]; intros a; simpl.
+  - split; [left; reflexivity|]. split; [lia|]. intros v Hv. inversion Hv.
+  - destruct (IH (Z.max a v)) as (Hmem & Hge & Hall). split; [|split].
+    + destruct Hmem as [Hr|Hr].
+      * rewrite Hr. destruct (Z.max_spec a v) as [[_ ->]|[_ ->]]; [right; left|left; reflexivity].
+      * right. right. exact Hr.
+    + lia.
+    + intros w Hw. apply elem_of_cons in Hw as [->|Hw]; [lia|apply Hall; exact Hw].
+Qed.
+
+Lemma fold_left_min_spec (vs : list Z) (a : Z) :
+  let r := fold_left Z.min vs a in (r = a \/ r ∈ vs) /\ r <= a /\ forall v, v ∈ vs -> r <= v.
+Proof.
+  revert a. induction vs as [|v vs IH]; intros a; simpl.
+  - split; [left; reflexivity|]. split; [lia|]. intros v Hv. inversion Hv.
+  - destruct (IH (Z.min a v)) as (Hmem & Hge & Hall). split; [|split].
+    + destruct Hmem as [Hr|Hr].
+      * rewrite Hr. destruct (Z.min_spec a v) as [[_ ->]|[_ ->]]; [left; reflexivity|right; left].
+      * right. right. exact Hr.
+    + lia.
+    + intros w Hw. apply elem_of_cons in Hw as [->|Hw]; [lia|apply Hall; exact Hw].
+Qed.
+
+Lemma elem_of_entries_snd (m : zmap) v : v ∈ map snd (entries m) <-> exists k, m !! k = Some v.
+Proof.
+  rewrite elem_of_list_fmap. split.
+  - intros ([k v'] & -> & Hin). exists k. apply elem_of_entries. exact Hin.
+  - intros [k Hk]. exists (k, v). split; [reflexivity|]. apply elem_of_entries. exact Hk.
+Qed.
+
+Lemma F_max_value_spec (m : zmap) :
+  match F_max_value m with
+  | (x, true) => (exists k, m !! k = Some x) /\ forall k v, m !! k = Some v -> v <= x
+  | (_, false) => m = ∅
+  end.
+Proof.
+  unfold F_max_value. destruct (map snd (entries m)) as [|v vs] eqn:E.
+  - apply map_empty. intros k. destruct (m !! k) as [v|] eqn:Ek; [|reflexivity].
+    assert (H : v ∈ map snd (entries m)) by (apply elem_of_entries_snd; eauto). rewrite E in H. inversion H.
+  - destruct (fold_left_max_spec vs v) as (Hmem & Hge & Hall). split.
+    + apply elem_of_entries_snd. rewrite E. destruct Hmem as [->|H]; [left|right; exact H].
+    + intros k w Hk. assert (H : w ∈ map snd (entries m)) by (apply elem_of_entries_snd; eauto).
+      rewrite E in H. apply elem_of_cons in H as [->|H]; [exact Hge|apply Hall; exact H].
+Qed.
+
+Lemma F_min_value_spec (m : zmap) :
+  match F_min_value m with
+  | (x, true) => (exists k, m !! k = Some x) /\ forall k v, m !! k = Some v -> x <= v
+  | (_, false) => m = ∅
+  end.
+Proof.
+  unfold F_min_value. destruct (map snd (entries m)) as [|v vs] eqn:E.
+  - apply map_empty. intros k. destruct (m !! k) as [v|] eqn:Ek; [|reflexivity].
+    assert (H : v ∈ map snd (entries m)) by (apply elem_of_entries_snd; eauto). rewrite E in H. inversion H.
+  - destruct (fold_left_min_spec vs v) as (Hmem & Hge & Hall). split.
+    + apply elem_of_entries_snd. rewrite E. destruct Hmem as [->|H]; [left|right; exact H].
+    + intros k w Hk. assert (H : w ∈ map snd (entries m)) by (apply elem_of_entries_snd; eauto).
+      rewrite E in H. apply elem_of_cons in H as [->|H]; [exact Hge|apply Hall; exact H].
+Qed.
+
+(** * Added / Removed *)
+Lemma symmetricDiffAdded_eq (m0 m1 : zmap) : AddedOp.symmetricDiffAdded m0 m1 = F_added m0 m1.
+Proof.
+  unfold AddedOp.symmetricDiffAdded, F_added.
+  apply (map_fold_ind (fun r (m : zmap) => r = m ∖ m0)).
+  - apply map_eq. intros k. rewrite lookup_empty. symmetry. apply lookup_difference_None. left. apply lookup_empty.
+  - intros i x m r Hi ->. apply map_eq. intros k. destruct (m0 !! i) as [y|] eqn:E0.
+    + destruct (decide (k = i)) as [->|Hne].
+      * transitivity (@None Z); [apply lookup_difference_None; auto|].
+        symmetry. apply lookup_difference_None. right. eauto.
+      * destruct ((m ∖ m0) !! k) as [v|] eqn:Ed.
+        -- apply lookup_difference_Some in Ed as [? ?]. symmetry. apply lookup_difference_Some.
+           rewrite lookup_insert_ne by congruence. auto.
+        -- symmetry. apply lookup_difference_None. apply lookup_difference_None in Ed as [Ed|Ed]; [left|right; exact Ed].
+           rewrite lookup_insert_ne by congruence. exact Ed.
+    + destruct (decide (k = i)) as [->|Hne].
+      * rewrite lookup_insert. symmetry. apply lookup_difference_Some. rewrite lookup_insert. auto.
+      * rewrite lookup_insert_ne by congruence.
+        destruct ((m ∖ m0) !! k) as [v|] eqn:Ed.
+        -- apply lookup_difference_Some in Ed as [? ?]. symmetry. apply lookup_difference_Some.
+           rewrite lookup_insert_ne by congruence. auto.
+        -- symmetry. apply lookup_difference_None. apply lookup_difference_None in Ed as [Ed|Ed]; [left|right; exact Ed].
+           rewrite lookup_insert_ne by congruence. exact Ed.
+Qed.
+
+Lemma symmetricDiffRemoved_eq (m0 m1 : zmap) : RemovedOp.symmetricDiffRemoved m0 m1 = F_removed m0 m1.
+Proof. exact (symmetricDiffAdded_eq m1 m0). Qed.
+
+Theorem added_correct (ms : list zmap) (m m' : zmap) :
+  AddedOp.val (fold_left AddedOp.Stabilize (ms ++ [m; m']) AddedOp.init) = F_added m m'.
+Proof. rewrite fold_left_app. cbn [fold_left]. unfold AddedOp.Stabilize at 1. simpl. apply symmetricDiffAdded_eq. Qed.
+
+Theorem removed_correct (ms : list zmap) (m m' : zmap) :
+  RemovedOp.val (fold_left RemovedOp.Stabilize (ms ++ [m; m']) RemovedOp.init) = F_removed m m'.
+Proof. rewrite fold_left_app. cbn [fold_left]. unfold RemovedOp.Stabilize at 1. simpl. apply symmetricDiffRemoved_eq. Qed.
+
+(** * Selector *)
+Section selector.
+  Context (eq : eqfn).
+  Hypothesis eq_is_exact : eq_exact eq.
+
+  Definition mark_dirty (n : Selector.node) : Selector.node :=
+    Selector.MkNode (Selector.value n) true (Selector.seeded n) (Selector.necessary n).
+
+  Lemma mark_step (sel : gmap Z Selector.node) k :
+    match sel !! k with Some n => <[k := mark_dirty n]> sel | None => sel end
+    = partial_alter (fmap mark_dirty) k sel.
+  Proof.
+    apply map_eq. intros k'. destruct (decide (k' = k)) as [->|Hne].
+    - rewrite lookup_partial_alter. destruct (sel !! k) as [n|] eqn:E; simpl.
+      + apply lookup_insert.
+      + exact E.
+    - rewrite lookup_partial_alter_ne by congruence.
+      destruct (sel !! k); [apply lookup_insert_ne; congruence|reflexivity].
+  Qed.
+
+  Lemma fanout_selected_lookup (s : Selector.t) k :
+    Selector.selected (Selector.fanout_Stabilize eq s) !! k =
+    match diff_at eq (Selector.last s) (Selector.input s) k with
+    | Some _ => mark_dirty <$> Selector.selected s !! k
+    | None => Selector.selected s !! k
+    end.
+  Proof.
+    unfold Selector.fanout_Stabilize; simpl.
+    rewrite (fold_left_ext' _ (fun o c => partial_alter ((fun _ => fmap mark_dirty) c) (ckey c) o))
+      by (intros o c; apply mark_step).
+    rewrite (fold_diff_lookup (fun _ : change => fmap mark_dirty)). reflexivity.
+  Qed.
+
+  Definition sel_inv (s : Selector.t) : Prop :=
+    Selector.current s = Selector.last s /\
+    forall k n, Selector.selected s !! k = Some n -> Selector.seeded n = true -> Selector.dirty n = false ->
+                Selector.value n = F_select k (Selector.last s).
+
+  Lemma F_select_unchanged (m m' : zmap) k : diff_at eq m m' k = None -> F_select k m = F_select k m'.
+  Proof.
+    unfold diff_at, classify, F_select. destruct (m !! k) as [v|], (m' !! k) as [v'|]; try discriminate; [|reflexivity].
+    destruct (veqb eq v v') eqn:E; [|discriminate]. intros _. rewrite (eq_is_exact _ _ E). reflexivity.
+  Qed.
+
+  Lemma fanout_inv (s : Selector.t) :
+    sel_inv s ->
+    sel_inv (Selector.fanout_Stabilize eq s) /\
+    Selector.last (Selector.fanout_Stabilize eq s) = Selector.input s /\
+    Selector.input (Selector.fanout_Stabilize eq s) = Selector.input s.
+  Proof.
+    intros [_ HB]. split; [|split; reflexivity]. split; [reflexivity|].
+    intros k n Hn Hseed Hdirty. rewrite fanout_selected_lookup in Hn.
+    change (Selector.last (Selector.fanout_Stabilize eq s)) with (Selector.input s).
+    destruct (diff_at eq (Selector.last s) (Selector.input s) k) eqn:Ed.
+    - destruct (Selector.selected s !! k) as [n0|]; [|discriminate]. inversion Hn; subst. discriminate.
+    - rewrite <- (F_select_unchanged _ _ _ Ed). apply HB; assumption.
+  Qed.
+
+  Lemma any_necessary_false (sel : gmap Z Selector.node) :
+    Selector.any_necessary sel = false -> forall k n, sel !! k = Some n -> Selector.necessary n = false.
+  Proof.
+    unfold Selector.any_necessary.
+    apply (map_fold_ind (fun r (m : gmap Z Selector.node) =>
+             r = false -> forall k n, m !! k = Some n -> Selector.necessary n = false)).
+    - intros _ k n Hk. rewrite lookup_empty in Hk. discriminate.
+    - intros i x m r Hi IH Hr k n Hk. apply orb_false_iff in Hr as [Hr Hx].
+      destruct (decide (k = i)) as [->|Hne].
+      + rewrite lookup_insert in Hk. inversion Hk; subst. exact Hx.
+      + rewrite lookup_insert_ne in Hk by congruence. eapply IH; eauto.
+  Qed.
+
+  Lemma pass_spec (s : Selector.t) :
+    sel_inv s ->
+    sel_inv (Selector.pass eq s) /\
+    Selector.input (Selector.pass eq s) = Selector.input s /\
+    forall k n, Selector.selected (Selector.pass eq s) !! k = Some n -> Selector.necessary n = true ->
+                Selector.value n = F_select k (Selector.input s).
+  Proof.
+    intros Hinv. unfold Selector.pass. destruct (Selector.any_necessary (Selector.selected s)) eqn:Eany.
+    - destruct (fanout_inv s Hinv) as ([HA HB] & Hlast & Hinput).
+      set (s1 := Selector.fanout_Stabilize eq s) in *.
+      assert (Hnode : forall k n', Selector.selected
+                 (Selector.Mk (Selector.last s1) (Selector.current s1)
+                    (map_imap (fun key n => Some (if Selector.necessary n && Selector.Stale n
+                                                  then Selector.node_Stabilize s1 key n else n)) (Selector.selected s1))
+                    (Selector.input s1)) !! k = Some n' ->
+               exists n, Selector.selected s1 !! k = Some n /\
+                 n' = if Selector.necessary n && Selector.Stale n then Selector.node_Stabilize s1 k n else n).
+      { intros k n'. simpl. rewrite map_lookup_imap. intros H.
+        apply bind_Some in H as (n & Hn & Hf). inversion Hf. eauto. }
+      split; [|split].
+      + split; [exact HA|]. intros k n' Hn' Hseed Hdirty. simpl.
+        destruct (Hnode k n' Hn') as (n & Hn & ->).
+        destruct (Selector.necessary n && Selector.Stale n).
+        * unfold Selector.node_Stabilize. cbn [Selector.value]. rewrite HA. reflexivity.
+        * apply HB; assumption.
+      + exact Hinput.
+      + intros k n' Hn' Hnec. destruct (Hnode k n' Hn') as (n & Hn & ->). rewrite <- Hlast.
+        destruct (Selector.necessary n && Selector.Stale n) eqn:E.
+        * unfold Selector.node_Stabilize. cbn [Selector.value]. rewrite HA. reflexivity.
+        * rewrite Hnec in E. simpl in E. unfold Selector.Stale in E.
+          apply orb_false_iff in E as [Ed Es]. apply negb_false_iff in Es. apply HB; assumption.
+    - split; [exact Hinv|]. split; [reflexivity|]. intros k n Hn Hnec.
+      rewrite (any_necessary_false _ Eany k n Hn) in Hnec. discriminate.
+  Qed.
+
+  Lemma sel_inv_step (s : Selector.t) (e : Selector.ev) : sel_inv s -> sel_inv (Selector.step eq s e).
+  Proof.
+    intros Hinv. destruct e as [key|key|key|m|]; simpl.
+    - destruct (Selector.selected s !! key) eqn:E; [exact Hinv|].
+      destruct Hinv as [HA HB]. split; [exact HA|]. intros k n Hn Hseed Hdirty. simpl in *.
+      destruct (decide (k = key)) as [->|Hne].
+      + rewrite lookup_insert in Hn. inversion Hn; subst. discriminate.
+      + rewrite lookup_insert_ne in Hn by congruence. apply HB; assumption.
+    - destruct Hinv as [HA HB]. split; [exact HA|]. intros k n Hn Hseed Hdirty. simpl in *.
+      destruct (decide (k = key)) as [->|Hne].
+      + rewrite lookup_alter in Hn. destruct (Selector.selected s !! key) as [n0|] eqn:E; [|discriminate].
+        inversion Hn; subst. simpl in *. apply (HB key n0); assumption.
+      + rewrite lookup_alter_ne in Hn by congruence. apply HB; assumption.
+    - destruct Hinv as [HA HB]. split; [exact HA|]. intros k n Hn Hseed Hdirty. simpl in *.
+      destruct (decide (k = key)) as [->|Hne].
+      + rewrite lookup_alter in Hn. destruct (Selector.selected s !! key) as [n0|] eqn:E; [|discriminate].
+        inversion Hn; subst. simpl in *. apply (HB key n0); assumption.
+      + rewrite lookup_alter_ne in Hn by congruence. apply HB; assumption.
+    - exact Hinv.
+    - apply pass_spec. exact Hinv.
+  Qed.
+
+  Lemma sel_inv_init : sel_inv Selector.init.
+  Proof. split; [reflexivity|]. intros k n Hn. simpl in Hn. rewrite lookup_empty in Hn. discriminate. Qed.
+
+  (** After every pass -- whatever selections, observations, un-observations, input changes
+      and earlier passes came before -- each observed per-key node holds its key's current
+      value (the zero value while the key is absent). *)
+  Theorem selector_correct (evs : list Selector.ev) :
+    let s := fold_left (Selector.step eq) (evs ++ [Selector.Pass]) Selector.init in
+    forall k n, Selector.selected s !! k = Some n -> Selector.necessary n = true ->
+                Selector.value n = F_select k (Selector.input s).
+  Proof.
+    intros s k n. unfold s. rewrite fold_left_app. simpl.
+    set (s0 := fold_left (Selector.step eq) evs Selector.init).
+    assert (Hinv : sel_inv s0).
+    { unfold s0. generalize Selector.init, sel_inv_init. induction evs as [|e evs IH]; intros i Hi; simpl; [exact Hi|].
+      apply IH. apply sel_inv_step. exact Hi. }
+    destruct (pass_spec s0 Hinv) as (_ & Hin & Hval). rewrite Hin. apply Hval.
+  Qed.
+End selector.
+
+(** * Join *)
+
+Lemma elem_of_remove_first (x y : Z) (l : list Z) :
+  NoDup l -> (y ∈ Join.remove_first x l <-> y ∈ l /\ y <> x).
+Proof.
+  induction l as [|z l IH]; intros Hnd; simpl.
+  - split; [intros H; inversion H|intros [H _]; inversion H].
+  - inversion Hnd as [|? ? Hz Hnd']; subst. destruct (x =? z) eqn:E.
+    + apply Z.eqb_eq in E. subst z. split.
+      * intros Hy. split; [right; exact Hy|]. intros ->. contradiction.
+      * intros [Hy Hne]. apply elem_of_cons in Hy as [->|Hy]; [congruence|exact Hy].
+    + apply Z.eqb_neq in E. rewrite elem_of_cons, (IH Hnd'), elem_of_cons. split.
+      * intros [->|[Hy Hne]]; [split; [left; reflexivity|congruence]|split; [right; exact Hy|exact Hne]].
+      * intros [[->|Hy] Hne]; [left; reflexivity|right; split; assumption].
+Qed.
+
+Lemma NoDup_remove_first (x : Z) (l : list Z) : NoDup l -> NoDup (Join.remove_first x l).
+Proof.
+  induction l as [|z l IH]; intros Hnd; simpl; [constructor|].
+  inversion Hnd as [|? ? Hz Hnd']; subst. destruct (x =? z); [exact Hnd'|].
+  constructor; [|apply IH; exact Hnd'].
+  intros Hin. apply (elem_of_remove_first x z l Hnd') in Hin as [Hin _]. contradiction.
+Qed.
+
+Section join.
+  Context (fixed : bool) (keyOf : Z -> Z).
+
+  Definition range_has (m : zmap) (x : Z) : Prop := exists k, m !! k = Some x.
+  Definition consistent (m : zmap) : Prop := forall k x, m !! k = Some x -> keyOf x = k.
+
+  (** the linking state: [byNode] inverts [linked], the graph edges and [parents] are exactly
+      the linked inner nodes *)
+  Record structure (j : Join.t) : Prop := {
+    st_inverse : forall x k, Join.byNode j !! x = Some k <-> Join.linked j !! k = Some x;
+    st_parents_nodup : NoDup (Join.parents j);
+    st_parents : forall x, x ∈ Join.parents j <-> range_has (Join.linked j) x;
+    st_edges : Join.ingraph j = true -> forall x, x ∈ Join.edges j <-> range_has (Join.linked j) x;
+    st_consistent : consistent (Join.linked j)
+  }.
+
+  (** fields the linking operations leave alone *)
+  Definition frame (j j' : Join.t) : Prop :=
+    Join.last j' = Join.last j /\ Join.value j' = Join.value j /\ Join.pending j' = Join.pending j /\
+    Join.refresh j' = Join.refresh j /\ Join.ingraph j' = Join.ingraph j /\ Join.vals j' = Join.vals j /\
+    Join.outer j' = Join.outer j /\ (Join.dirty j = ∅ -> Join.dirty j' = ∅).
+
+  Lemma frame_refl j : frame j j.
+  Proof. repeat split; auto. Qed.
+
+  Lemma frame_trans j1 j2 j3 : frame j1 j2 -> frame j2 j3 -> frame j1 j3.
+  Proof.
+    intros (A1 & A2 & A3 & A4 & A5 & A6 & A7 & A8) (B1 & B2 & B3 & B4 & B5 & B6 & B7 & B8).
+    repeat split; try congruence. auto.
+  Qed.
+
+  Lemma linked_injective j k k' x :
+    structure j -> Join.linked j !! k = Some x -> Join.linked j !! k' = Some x -> k = k'.
+  Proof.
+    intros St H1 H2. apply (st_inverse j St) in H1, H2. congruence.
+  Qed.
+
+  Lemma unlink_none j key : Join.linked j !! key = None -> Join.unlink j key = j.
+  Proof. intros H. unfold Join.unlink. rewrite H. reflexivity. Qed.
+
+  Lemma unlink_spec j key :
+    structure j ->
+    structure (Join.unlink j key) /\ Join.linked (Join.unlink j key) = delete key (Join.linked j) /\
+    frame j (Join.unlink j key).
+  Proof.
+    intros St. destruct (Join.linked j !! key) as [xo|] eqn:El.
+    2:{ rewrite (unlink_none j key El). split; [exact St|]. split; [|apply frame_refl].
+        symmetry. apply delete_notin. exact El. }
+    unfold Join.unlink. rewrite El. split; [|split].
+    - constructor; simpl.
+      + intros x k. destruct (decide (x = xo)) as [->|Hx].
+        * rewrite lookup_delete. split; [discriminate|]. intros Hk.
+          destruct (decide (k = key)) as [->|Hne]; [rewrite lookup_delete in Hk; discriminate|].
+          rewrite lookup_delete_ne in Hk by congruence.
+          exfalso. apply Hne. eapply linked_injective; eauto.
+        * rewrite lookup_delete_ne by congruence. rewrite (st_inverse j St).
+          destruct (decide (k = key)) as [->|Hne].
+          -- rewrite lookup_delete. split; [|discriminate]. intros H. congruence.
+          -- rewrite lookup_delete_ne by congruence. reflexivity.
+      + apply NoDup_remove_first. apply (st_parents_nodup j St).
+      + intros x. rewrite (elem_of_remove_first _ _ _ (st_parents_nodup j St)), (st_parents j St). split.
+        * intros [[k Hk] Hne]. exists k. destruct (decide (k = key)) as [->|?]; [congruence|].
+          rewrite lookup_delete_ne by congruence. exact Hk.
+        * intros [k Hk]. destruct (decide (k = key)) as [->|Hne]; [rewrite lookup_delete in Hk; discriminate|].
+          rewrite lookup_delete_ne in Hk by congruence. split; [exists k; exact Hk|].
+          intros ->. apply Hne. eapply linked_injective; eauto.
+      + intros Hg x. rewrite elem_of_difference, (st_edges j St Hg), elem_of_singleton. split.
+        * intros [[k Hk] Hne]. exists k. destruct (decide (k = key)) as [->|?]; [congruence|].
+          rewrite lookup_delete_ne by congruence. exact Hk.
+        * intros [k Hk]. destruct (decide (k = key)) as [->|Hne]; [rewrite lookup_delete in Hk; discriminate|].
+          rewrite lookup_delete_ne in Hk by congruence. split; [exists k; exact Hk|].
+          intros ->. apply Hne. eapply linked_injective; eauto.
+      + intros k x Hk. destruct (decide (k = key)) as [->|Hne]; [rewrite lookup_delete in Hk; discriminate|].
+        rewrite lookup_delete_ne in Hk by congruence. apply (st_consistent j St). exact Hk.
+    - reflexivity.
+    - repeat split; simpl; auto. intros ->. set_solver.
+  Qed.
+
+  Lemma link_spec j key inner :
+    structure j -> Join.linked j !! key = None -> keyOf inner = key ->
+    structure (Join.link j key inner) /\ Join.linked (Join.link j key inner) = <[key := inner]> (Join.linked j) /\
+    frame j (Join.link j key inner).
+  Proof.
+    intros St Hnone Hkey.
+    assert (Hfree : ~ range_has (Join.linked j) inner).
+    { intros [k Hk]. pose proof (st_consistent j St k inner Hk). congruence. }
+    split; [|split].
+    - constructor; simpl.
+      + intros x k. destruct (decide (x = inner)) as [->|Hx].
+        * rewrite lookup_insert. destruct (decide (k = key)) as [->|Hne].
+          -- rewrite lookup_insert. tauto.
+          -- rewrite lookup_insert_ne by congruence. split; [congruence|].
+             intros Hk. exfalso. apply Hfree. exists k. exact Hk.
+        * rewrite lookup_insert_ne by congruence. rewrite (st_inverse j St).
+          destruct (decide (k = key)) as [->|Hne].
+          -- rewrite lookup_insert, Hnone. split; [discriminate|congruence].
+          -- rewrite lookup_insert_ne by congruence. reflexivity.
+      + apply NoDup_app. split; [apply (st_parents_nodup j St)|]. split; [|apply NoDup_singleton].
+        intros x Hx Hx'. apply elem_of_list_singleton in Hx'. subst. apply Hfree. apply (st_parents j St). exact Hx.
+      + intros x. rewrite elem_of_app, elem_of_list_singleton, (st_parents j St). split.
+        * intros [[k Hk]| ->].
+          -- exists k. destruct (decide (k = key)) as [->|?]; [congruence|]. rewrite lookup_insert_ne by congruence. exact Hk.
+          -- exists key. apply lookup_insert.
+        * intros [k Hk]. destruct (decide (k = key)) as [->|Hne].
+          -- rewrite lookup_insert in Hk. right. congruence.
+          -- rewrite lookup_insert_ne in Hk by congruence. left. exists k. exact Hk.
+      + intros Hg x. rewrite elem_of_union, elem_of_singleton, (st_edges j St Hg). split.
+        * intros [[k Hk]| ->].
+          -- exists k. destruct (decide (k = key)) as [->|?]; [congruence|]. rewrite lookup_insert_ne by congruence. exact Hk.
+          -- exists key. apply lookup_insert.
+        * intros [k Hk]. destruct (decide (k = key)) as [->|Hne].
+          -- rewrite lookup_insert in Hk. right. congruence.
+          -- rewrite lookup_insert_ne in Hk by congruence. left. exists k. exact Hk.
+      + intros k x Hk. destruct (decide (k = key)) as [->|Hne].
+        * rewrite lookup_insert in Hk. congruence.
+        * rewrite lookup_insert_ne in Hk by congruence. apply (st_consistent j St). exact Hk.
+    - reflexivity.
+    - repeat split; simpl; auto.
+  Qed.
+
+  (** ** the structural loop of Stabilize *)
+  Definition target_consistent (c : change) : Prop :=
+    match c with Added k x | Updated k _ x => keyOf x = k | Removed _ _ => True end.
+
+  Definition out_h (vals : zmap) (c : change) (_ : option Z) : option Z :=
+    match c with Removed _ _ => None | Added _ x | Updated _ _ x => Some (val_of vals x) end.
+
+  Lemma struct_loop cs j out :
+    NoDup (map ckey cs) ->
+    (forall c, c ∈ cs -> change_valid c (Join.linked j)) ->
+    (forall c, c ∈ cs -> target_consistent c) ->
+    structure j ->
+    let jo := fold_left Join.struct_step cs (j, out) in
+    structure jo.1 /\ Join.linked jo.1 = fold_left apply_change cs (Join.linked j) /\
+    jo.2 = fold_left (fun o c => partial_alter (out_h (Join.vals j) c) (ckey c) o) cs out /\
+    frame j jo.1.
+  Proof.
+    revert j out. induction cs as [|c cs IH]; intros j out Hnd Hval Hcons St; simpl.
+    { split; [exact St|]. split; [reflexivity|]. split; [reflexivity|apply frame_refl]. }
+    inversion Hnd as [|? ? Hc Hnd']; subst.
+    assert (Hrest : forall j', Join.linked j' = apply_change (Join.linked j) c ->
+                     forall c', c' ∈ cs -> change_valid c' (Join.linked j')).
+    { intros j' Hl c' Hc'. rewrite Hl. apply change_valid_other; [|apply Hval; right; exact Hc'].
+      intros Heq. apply Hc. rewrite Heq. apply elem_of_list_fmap. eauto. }
+    pose proof (Hval c (elem_of_list_here _ _)) as Hv.
+    pose proof (Hcons c (elem_of_list_here _ _)) as Ht.
+    assert (Hcons' : forall c', c' ∈ cs -> target_consistent c') by (intros c' Hc'; apply Hcons; right; exact Hc').
+    destruct c as [k x|k v|k o x]; simpl in Hv, Ht.
+    - destruct (link_spec j k x St Hv Ht) as (St' & Hl' & Hf').
+      destruct (IH (Join.link j k x) (<[k := val_of (Join.vals j) x]> out) Hnd' (Hrest _ Hl') Hcons' St')
+        as (St2 & Hl2 & Ho2 & Hf2).
+      split; [exact St2|]. split; [rewrite Hl2, Hl'; reflexivity|]. split; [|exact (frame_trans _ _ _ Hf' Hf2)].
+      rewrite Ho2. destruct Hf' as (_ & _ & _ & _ & _ & Hvals & _). rewrite Hvals. reflexivity.
+    - destruct (unlink_spec j k St) as (St' & Hl' & Hf').
+      destruct (IH (Join.unlink j k) (delete k out) Hnd' (Hrest _ Hl') Hcons' St') as (St2 & Hl2 & Ho2 & Hf2).
+      split; [exact St2|]. split; [rewrite Hl2, Hl'; reflexivity|]. split; [|exact (frame_trans _ _ _ Hf' Hf2)].
+      rewrite Ho2. destruct Hf' as (_ & _ & _ & _ & _ & Hvals & _). rewrite Hvals. reflexivity.
+    - destruct (unlink_spec j k St) as (St' & Hl' & Hf').
+      assert (Hnone : Join.linked (Join.unlink j k) !! k = None) by (rewrite Hl'; apply lookup_delete).
+      destruct (link_spec (Join.unlink j k) k x St' Hnone Ht) as (St'' & Hl'' & Hf'').
+      assert (Hl3 : Join.linked (Join.link (Join.unlink j k) k x) = apply_change (Join.linked j) (Updated k o x)).
+      { rewrite Hl'', Hl'. simpl. apply insert_delete_insert. }
+      destruct (IH (Join.link (Join.unlink j k) k x) (<[k := val_of (Join.vals j) x]> out) Hnd' (Hrest _ Hl3) Hcons' St'')
+        as (St2 & Hl2 & Ho2 & Hf2).
+      split; [exact St2|]. split; [rewrite Hl2, Hl3; reflexivity|].
+      split; [|exact (frame_trans _ _ _ (frame_trans _ _ _ Hf' Hf'') Hf2)].
+      rewrite Ho2. destruct Hf' as (_ & _ & _ & _ & _ & Hvals & _). destruct Hf'' as (_ & _ & _ & _ & _ & Hvals' & _).
+      rewrite Hvals', Hvals. reflexivity.
+  Qed.
+
+  (** ** the two value loops *)
+  Lemma list_find_entries (m : zmap) k :
+    match list_find (fun kv : Z * Z => kv.1 = k) (entries m) with Some (_, kv) => Some kv.2 | None => None end = m !! k.
+  Proof.
+    destruct (list_find _ (entries m)) as [[i [k' v]]|] eqn:E.
+    - apply list_find_Some in E as (Hi & Hk & _). simpl in Hk. subst k'. symmetry. apply elem_of_entries.
+      eapply elem_of_list_lookup_2. exact Hi.
+    - destruct (m !! k) as [v|] eqn:Em; [|reflexivity]. apply elem_of_entries in Em.
+      pose proof (proj1 (list_find_None _ _) E) as Hall. rewrite Forall_forall in Hall.
+      exfalso. apply (Hall (k, v) Em). reflexivity.
+  Qed.
+
+  Lemma fold_insert_map_lookup (g : Z -> Z) (l : list (Z * Z)) (out : zmap) k :
+    NoDup (map fst l) ->
+    fold_left (fun o kv => <[kv.1 := g kv.2]> o) l out !! k =
+    match list_find (fun kv => kv.1 = k) l with Some (_, kv) => Some (g kv.2) | None => out !! k end.
+  Proof.
+    revert out. induction l as [|[k0 v0] l IH]; intros out Hnd; simpl; [reflexivity|].
+    inversion Hnd as [|? ? Hk0 Hnd']; subst. rewrite IH by assumption. simpl.
+    destruct (decide (k0 = k)) as [->|Hne].
+    - destruct (list_find _ l) as [[i [k1 v1]]|] eqn:E; simpl.
+      + apply list_find_Some in E as (Hl & Hk1 & _). simpl in Hk1. subst k1.
+        exfalso. apply Hk0. apply elem_of_list_fmap. exists (k, v1). split; [reflexivity|].
+        eapply elem_of_list_lookup_2. exact Hl.
+      + apply lookup_insert.
+    - destruct (list_find _ l) as [[i [k1 v1]]|]; simpl; [reflexivity|].
+      apply lookup_insert_ne. exact Hne.
+  Qed.
+
+  Lemma refresh_all_lookup j out k :
+    Join.refresh_all j out !! k =
+    match Join.linked j !! k with Some x => Some (val_of (Join.vals j) x) | None => out !! k end.
+  Proof.
+    unfold Join.refresh_all. rewrite fold_insert_map_lookup by apply NoDup_entries_fst.
+    rewrite <- (list_find_entries (Join.linked j) k).
+    destruct (list_find _ (entries (Join.linked j))) as [[i kv]|]; reflexivity.
+  Qed.
+
+  Lemma apply_pending_lookup j out k :
+    Join.apply_pending j out !! k =
+    if decide (k ∈ Join.pending j)
+    then match Join.linked j !! k with Some x => Some (val_of (Join.vals j) x) | None => out !! k end
+    else out !! k.
+  Proof.
+    unfold Join.apply_pending. generalize (Join.pending j) as ps. intros ps. revert out.
+    induction ps as [|key ps IH]; intros out; simpl.
+    { destruct (decide (k ∈ [])) as [H|]; [inversion H|reflexivity]. }
+    rewrite IH. destruct (decide (k = key)) as [->|Hne].
+    - destruct (decide (key ∈ key :: ps)) as [_|Hn]; [|exfalso; apply Hn; left].
+      destruct (Join.linked j !! key) as [x|] eqn:El.
+      + rewrite lookup_insert. destruct (decide (key ∈ ps)); reflexivity.
+      + destruct (decide (key ∈ ps)); reflexivity.
+    - assert (Hout : (match Join.linked j !! key with
+                      | Some inner => <[key := val_of (Join.vals j) inner]> out
+                      | None => out end) !! k = out !! k).
+      { destruct (Join.linked j !! key); [apply lookup_insert_ne; congruence|reflexivity]. }
+      rewrite Hout.
+      destruct (decide (k ∈ ps)) as [Hin|Hnin].
+      + destruct (decide (k ∈ key :: ps)) as [_|Hn]; [reflexivity|exfalso; apply Hn; right; exact Hin].
+      + destruct (decide (k ∈ key :: ps)) as [Hin'|_]; [|reflexivity].
+        apply elem_of_cons in Hin' as [?|?]; [congruence|contradiction].
+  Qed.
+
+  (** ** one recompute *)
+  Lemma applied_exact eq (m m' : zmap) : eq_exact eq -> fold_left apply_change (merge_diff eq m m') m = m'.
+  Proof.
+    intros Hex. apply map_eq. intros k. rewrite applied_lookup. unfold diff_at, classify.
+    destruct (m !! k) as [v|] eqn:Em, (m' !! k) as [v'|] eqn:Em'; simpl; try reflexivity.
+    destruct (veqb eq v v') eqn:E; simpl; [|reflexivity]. rewrite (Hex _ _ E). reflexivity.
+  Qed.
+
+  Lemma structure_with_value_pending j v p l r :
+    structure j -> structure (Join.with_value_pending j v p l r).
+  Proof. intros St. constructor; simpl; apply St. Qed.
+
+  Record pre (j : Join.t) : Prop := {
+    pre_st : structure j;
+    pre_linked : Join.linked j = Join.last j;
+    pre_dom : forall k, Join.value j !! k = None <-> Join.linked j !! k = None;
+    pre_outer : consistent (Join.outer j);
+    pre_dirty : Join.dirty j = ∅;
+    pre_fresh : (fixed = true /\ Join.refresh j = true) \/
+                forall k x, Join.linked j !! k = Some x ->
+                  Join.value j !! k = Some (val_of (Join.vals j) x) \/ k ∈ Join.pending j
+  }.
+
+  Definition post (j j' : Join.t) : Prop :=
+    structure j' /\ Join.linked j' = Join.outer j /\ Join.last j' = Join.outer j /\ Join.outer j' = Join.outer j /\
+    Join.vals j' = Join.vals j /\ Join.ingraph j' = Join.ingraph j /\ Join.dirty j' = ∅ /\ Join.pending j' = [] /\
+    Join.refresh j' = false /\ Join.value j' = F_join (Join.vals j) (Join.outer j).
+
+  Lemma Stabilize_spec j : pre j -> post j (Join.Stabilize fixed j).
+  Proof.
+    intros [St Hlinked Hdom Houter Hdirty Hfresh].
+    set (cs := merge_diff (Some Z.eqb) (Join.last j) (Join.outer j)).
+    destruct (struct_loop cs j (Join.value j)) as (St1 & Hl1 & Ho1 & Hf1).
+    { apply NoDup_merge_diff_keys. }
+    { intros c Hc. rewrite Hlinked. eapply merge_diff_valid. exact Hc. }
+    { intros c Hc. apply elem_of_merge_diff in Hc. unfold diff_at, classify in Hc.
+      destruct (Join.last j !! ckey c) as [a|], (Join.outer j !! ckey c) as [b|] eqn:Eo; try destruct (veqb _ a b);
+        inversion Hc as [Hc']; rewrite <- Hc' in *; simpl in *; auto; apply Houter; exact Eo. }
+    { exact St. }
+    destruct Hf1 as (F1 & F2 & F3 & F4 & F5 & F6 & F7 & F8).
+    assert (HL : Join.linked (fold_left Join.struct_step cs (j, Join.value j)).1 = Join.outer j).
+    { rewrite Hl1, Hlinked. apply applied_exact. apply eq_exact_eqb. }
+    unfold Join.Stabilize. fold cs.
+    set (jo := fold_left Join.struct_step cs (j, Join.value j)) in *.
+    unfold post. simpl.
+    split; [apply structure_with_value_pending; exact St1|].
+    split; [exact HL|]. split; [reflexivity|]. split; [exact F7|]. split; [exact F6|]. split; [exact F5|].
+    split; [exact (F8 Hdirty)|]. split; [reflexivity|]. split; [reflexivity|].
+    apply map_eq. intros k. unfold F_join. rewrite lookup_fmap.
+    rewrite apply_pending_lookup, HL, F6, F3.
+    assert (Hout1 : jo.2 !! k = match diff_at (Some Z.eqb) (Join.last j) (Join.outer j) k with
+                                | Some c => out_h (Join.vals j) c None | None => Join.value j !! k end).
+    { rewrite Ho1. unfold cs. rewrite fold_diff_lookup.
+      destruct (diff_at _ _ _ k) as [[]|]; reflexivity. }
+    assert (Hout2 : (if fixed && Join.refresh jo.1 then Join.refresh_all jo.1 jo.2 else jo.2) !! k =
+                    if fixed && Join.refresh j
+                    then match Join.outer j !! k with Some x => Some (val_of (Join.vals j) x) | None => jo.2 !! k end
+                    else jo.2 !! k).
+    { rewrite F4. destruct (fixed && Join.refresh j); [|reflexivity]. rewrite refresh_all_lookup, HL, F6. reflexivity. }
+    destruct (Join.outer j !! k) as [x|] eqn:Eo; simpl.
+    - destruct (decide (k ∈ Join.pending j)) as [Hin|Hnin]; [reflexivity|].
+      rewrite Hout2. destruct (fixed && Join.refresh j) eqn:Efr; [reflexivity|].
+      rewrite Hout1. unfold diff_at, classify. rewrite Eo.
+      destruct (Join.last j !! k) as [x'|] eqn:El; [|reflexivity].
+      simpl. destruct (x' =? x) eqn:Ex; [|reflexivity].
+      apply Z.eqb_eq in Ex. subst x'.
+      destruct Hfresh as [[-> Hr]|Hfresh]; [rewrite Hr in Efr; discriminate|].
+      destruct (Hfresh k x) as [Hv|Hp]; [rewrite Hlinked; exact El|exact Hv|contradiction].
+    - assert (Hgoal : jo.2 !! k = None).
+      { rewrite Hout1. unfold diff_at, classify. rewrite Eo.
+        destruct (Join.last j !! k) as [x'|] eqn:El; [reflexivity|].
+        apply Hdom. rewrite Hlinked. exact El. }
+      assert (Hgoal2 : (if fixed && Join.refresh jo.1 then Join.refresh_all jo.1 jo.2 else jo.2) !! k = None).
+      { rewrite Hout2. destruct (fixed && Join.refresh j); exact Hgoal. }
+      destruct (decide (k ∈ Join.pending j)); exact Hgoal2.
+  Qed.
+
+  Lemma post_pre j j' : consistent (Join.outer j) -> post j j' -> pre j'.
+  Proof.
+    intros Hco (St & Hl & Hlast & Hout & Hvals & Hg & Hd & Hp & Hr & Hv).
+    constructor.
+    - exact St.
+    - congruence.
+    - intros k. rewrite Hv, Hl. unfold F_join. rewrite lookup_fmap. destruct (Join.outer j !! k); simpl; split; congruence.
+    - rewrite Hout. exact Hco.
+    - exact Hd.
+    - right. intros k x Hk. left. rewrite Hv, Hvals. unfold F_join. rewrite lookup_fmap.
+      rewrite Hl in Hk. rewrite Hk. reflexivity.
+  Qed.
+
+  (** ** notifications, a whole pass, the other events *)
+  Lemma with_value_pending_eta j :
+    Join.with_value_pending j (Join.value j) (Join.pending j) (Join.last j) (Join.refresh j) = j.
+  Proof. destruct j; reflexivity. Qed.
+
+  Lemma ChildChanged_fold (xs : list Z) j :
+    fold_left Join.ChildChanged xs j =
+    Join.with_value_pending j (Join.value j) (Join.pending j ++ omap (fun x => Join.byNode j !! x) xs)
+                            (Join.last j) (Join.refresh j).
+  Proof.
+    revert j. induction xs as [|x xs IH]; intros j; simpl.
+    - rewrite app_nil_r. symmetry. apply with_value_pending_eta.
+    - rewrite IH. unfold Join.ChildChanged. destruct (Join.byNode j !! x) as [key|]; simpl.
+      + rewrite <- app_assoc. reflexivity.
+      + reflexivity.
+  Qed.
+
+  Record jinv (j : Join.t) : Prop := {
+    ji_st : structure j;
+    ji_linked : Join.linked j = Join.last j;
+    ji_dom : forall k, Join.value j !! k = None <-> Join.linked j !! k = None;
+    ji_outer : consistent (Join.outer j);
+    ji_pending : Join.pending j = [];
+    ji_fresh : Join.ingraph j = true ->
+               (fixed = true /\ Join.refresh j = true) \/
+               forall k x, Join.linked j !! k = Some x ->
+                 Join.value j !! k = Some (val_of (Join.vals j) x) \/ x ∈ Join.dirty j;
+    ji_never : fixed = false -> Join.ingraph j = false -> Join.linked j = ∅
+  }.
+
+  Lemma post_clear_restale j j' : post j j' -> post j (Join.clear_restale j').
+  Proof.
+    intros (St & H). split; [|exact H]. constructor; simpl; apply St.
+  Qed.
+
+  Lemma pre_clear_restale j : pre j -> pre (Join.clear_restale j).
+  Proof.
+    intros [St H1 H2 H3 H4 H5]. constructor; simpl; auto. constructor; simpl; apply St.
+  Qed.
+
+  Lemma join_pass_spec j :
+    jinv j -> Join.ingraph j = true ->
+    let j' := Join.pass fixed j in
+    jinv j' /\ Join.value j' = F_join (Join.vals j') (Join.outer j') /\
+    Join.vals j' = Join.vals j /\ Join.outer j' = Join.outer j /\ Join.ingraph j' = true.
+  Proof.
+    intros [St Hlinked Hdom Houter Hpending Hfresh Hnever] Hg. unfold Join.pass. rewrite Hg.
+    set (notified := filter (fun x => bool_decide (x ∈ Join.edges j)) (sorted_keys (Join.dirty j))).
+    rewrite ChildChanged_fold. simpl. rewrite Hpending. simpl.
+    set (j2 := Join.Mk _ _ _ _ _ _ _ _ _ _ _ _ _).
+    assert (Hpre : pre j2).
+    { constructor; unfold j2; simpl; auto.
+      - constructor; simpl; apply St.
+      - destruct (Hfresh Hg) as [Hl|Hr]; [left; exact Hl|right].
+        intros k x Hk. destruct (Hr k x Hk) as [Hv|Hd]; [left; exact Hv|right].
+        apply elem_of_list_omap. exists x. split.
+        + unfold notified. apply elem_of_list_filter. split.
+          * apply bool_decide_pack. apply (st_edges j St Hg). exists k. exact Hk.
+          * apply elem_of_sorted_keys. exact Hd.
+        + apply (st_inverse j St). exact Hk. }
+    pose proof (Stabilize_spec j2 Hpre) as Hpost.
+    assert (Hfinal : forall j3, post j2 j3 ->
+              jinv j3 /\ Join.value j3 = F_join (Join.vals j3) (Join.outer j3) /\
+              Join.vals j3 = Join.vals j /\ Join.outer j3 = Join.outer j /\ Join.ingraph j3 = true).
+    { intros j3 (St3 & Hl3 & Hlast3 & Hout3 & Hvals3 & Hg3 & Hd3 & Hp3 & Hr3 & Hv3).
+      unfold j2 in *; simpl in *.
+      split; [|split; [rewrite Hv3, Hvals3, Hout3; reflexivity|auto]].
+      constructor; auto.
+      - congruence.
+      - intros k. rewrite Hv3, Hl3. unfold F_join. rewrite lookup_fmap.
+        destruct (Join.outer j !! k); simpl; split; congruence.
+      - rewrite Hout3. exact Houter.
+      - intros _. right. intros k x Hk. left. rewrite Hv3, Hvals3. unfold F_join. rewrite lookup_fmap.
+        rewrite Hl3 in Hk. rewrite Hk. reflexivity.
+      - intros _ Hg'. congruence. }
+    destruct (Join.restale (Join.Stabilize fixed j2)).
+    - (* link marked the node stale: it runs a second time in the same pass *)
+      set (j3 := Join.clear_restale (Join.Stabilize fixed j2)).
+      assert (Hpost3 : post j2 j3) by (apply post_clear_restale; exact Hpost).
+      assert (Hpre3 : pre j3) by (eapply post_pre; [|exact Hpost3]; unfold j2; simpl; exact Houter).
+      pose proof (post_clear_restale _ _ (Stabilize_spec j3 Hpre3)) as Hpost4.
+      destruct Hpost3 as (_ & _ & _ & Hout3 & Hvals3 & Hg3 & _).
+      apply Hfinal. destruct Hpost4 as (St4 & Hl4 & Hlast4 & Hout4 & Hvals4 & Hg4 & Hd4 & Hp4 & Hr4 & Hv4).
+      unfold post. rewrite Hl4, Hlast4, Hout4, Hvals4, Hg4, Hv4, Hout3, Hvals3, Hg3. auto 10.
+    - apply Hfinal. exact Hpost.
+  Qed.
+
+  Definition event_ok (e : Join.ev) : Prop :=
+    match e with Join.SetOuter m => consistent m | _ => True end.
+
+  Lemma jinv_step j e :
+    jinv j -> event_ok e -> (fixed = true \/ e <> Join.Unobserve) -> jinv (Join.step fixed j e).
+  Proof.
+    intros Hinv Hok Hun. pose proof Hinv as [St Hlinked Hdom Houter Hpending Hfresh Hnever].
+    destruct e as [m|x v| | |]; simpl.
+    - constructor; simpl; auto. constructor; simpl; apply St.
+    - constructor; simpl; auto.
+      + constructor; simpl; apply St.
+      + intros Hg. destruct (Hfresh Hg) as [Hl|Hr]; [left; exact Hl|right].
+        intros k x' Hk. rewrite Hg. simpl.
+        destruct (decide (x' = x)) as [->|Hne].
+        * right. rewrite bool_decide_true by (apply (st_edges j St Hg); exists k; exact Hk). set_solver.
+        * destruct (Hr k x' Hk) as [Hv|Hd].
+          -- left. rewrite Hv. unfold val_of. rewrite lookup_insert_ne by congruence. reflexivity.
+          -- right. destruct (bool_decide (x ∈ Join.edges j)); set_solver.
+    - destruct (Join.ingraph j) eqn:Hg; [|exact Hinv].
+      constructor; simpl; auto.
+      + constructor; simpl; try apply St. discriminate.
+      + discriminate.
+      + intros Hf _. destruct Hun as [Hun|Hun]; congruence.
+    - destruct (Join.ingraph j) eqn:Hg; [exact Hinv|].
+      constructor; simpl; auto.
+      + constructor; simpl; try apply St. intros _ x. rewrite elem_of_list_to_set. apply (st_parents j St).
+      + intros _. destruct fixed eqn:Ef; [left; auto|right].
+        intros k x Hk. rewrite (Hnever eq_refl eq_refl) in Hk. rewrite lookup_empty in Hk. discriminate.
+      + discriminate.
+    - destruct (Join.ingraph j) eqn:Hg.
+      + apply join_pass_spec; assumption.
+      + unfold Join.pass. rewrite Hg. exact Hinv.
+  Qed.
+
+  Lemma jinv_init vals0 : jinv (Join.init vals0).
+  Proof.
+    constructor; simpl; auto.
+    - constructor; simpl.
+      + intros x k. rewrite !lookup_empty. split; discriminate.
+      + constructor.
+      + intros x. split; [intros H; inversion H|intros [k Hk]; rewrite lookup_empty in Hk; discriminate].
+      + discriminate.
+      + intros k x Hk. rewrite lookup_empty in Hk. discriminate.
+    - intros k. rewrite !lookup_empty. tauto.
+    - intros k x Hk. rewrite lookup_empty in Hk. discriminate.
+    - discriminate.
+  Qed.
+
+  Lemma jinv_run (evs : list Join.ev) j :
+    jinv j ->
+    (forall m, Join.SetOuter m ∈ evs -> consistent m) ->
+    (fixed = true \/ Join.Unobserve ∉ evs) ->
+    jinv (fold_left (Join.step fixed) evs j).
+  Proof.
+    revert j. induction evs as [|e evs IH]; intros j Hinv Hok Hun; simpl; [exact Hinv|].
+    apply IH.
+    - apply jinv_step; [exact Hinv| |].
+      + destruct e; simpl; auto. apply Hok. left.
+      + destruct Hun as [Hf|Hun]; [left; exact Hf|right]. intros ->. apply Hun. left.
+    - intros m Hm. apply Hok. right. exact Hm.
+    - destruct Hun as [Hf|Hun]; [left; exact Hf|right]. intros Hin. apply Hun. right. exact Hin.
+  Qed.
+
+  (** Join equals "read every inner incremental" after every pass in which it is observed,
+      for every history of outer-map changes, inner writes, (un)observations and passes --
+      provided each inner node keeps to one key ([consistent], witnessed by [keyOf]) and
+      either the node is never unobserved or the repaired variant is used. *)
+  Theorem join_correct (vals0 : zmap) (evs : list Join.ev) :
+    (forall m, Join.SetOuter m ∈ evs -> consistent m) ->
+    (fixed = true \/ Join.Unobserve ∉ evs) ->
+    let j := fold_left (Join.step fixed) (evs ++ [Join.Pass]) (Join.init vals0) in
+    Join.ingraph j = true -> Join.value j = F_join (Join.vals j) (Join.outer j).
+  Proof.
+    intros Hok Hun j. unfold j. rewrite fold_left_app. simpl.
+    set (j0 := fold_left (Join.step fixed) evs (Join.init vals0)).
+    assert (Hinv : jinv j0) by (apply jinv_run; [apply jinv_init|exact Hok|exact Hun]).
+    destruct (Join.ingraph j0) eqn:Hg.
+    - intros _. apply join_pass_spec; assumption.
+    - unfold Join.pass. rewrite Hg. intros Hg'. congruence.
+  Qed.
+End join.
